@@ -1,25 +1,58 @@
 import PycModel.Proofs.ParenExpr
 /-!
-# The whole expression skeleton: comma, assignment, `?:`, the ten binary levels, parentheses
+# The whole expression grammar above type names: comma, assignment, `?:`, the ten binary levels,
+prefix operators, `sizeof`, postfix operators (`++ -- [] . -> ()`), constants, identifiers, parentheses
 
-`X ::= identifier | ( X ) | X binop X | X ? X : X | X assign-op X | X , X` with the level discipline
-of C99 6.5.5-6.5.17 (`WFX`): comma < assignment (right-assoc) < conditional (right-assoc, full
-expression between `?` and `:`) < binary levels 0..9 (left-assoc) < primary.
-`parse_full`: every entry point of the parser model (`expression`, `assignmentExpression`,
-`conditionalExpression`, `binaryExpression m`) returns exactly `X.val` on the tokens of a
-well-formed `X`, for expressions of any size.
+`X` is the grammar's tree; `WFX L` is the level discipline of C99 6.5.1-6.5.17:
+comma (0) < assignment (1, right-assoc) < conditional (2, right-assoc, full expression between `?`
+and `:`) < binary levels 3..12 (left-assoc) < unary (13: prefix operators and `sizeof` apply to a
+unary expression) < postfix (14: suffixes apply to a postfix expression, left to right) < primary.
+`parse_full`: every entry point of the parser model returns exactly `X.val` on the tokens of a
+well-formed `X`, for expressions of any size.  Not covered: everything that contains a type name
+(casts, `sizeof(type)`, compound literals, `_Alignof`, `offsetof`) and string literals.
 -/
 namespace PycModel.FullExpr
 open PycModel PycModel.View PycModel.Climb PycModel.ClimbSim PycModel.ClimbConcrete PycModel.OperandId
-open PycModel.ParenExpr (idNode cast_paren cond_through assign_through expr_through)
+open PycModel.ParenExpr (idNode cond_through assign_through expr_through)
 
 theorem bnd {α β} (m : P α) (f : α → P β) (s : PState) :
     (m >>= f) s = match m s with | .ok a s' => f a s' | .err e => .err e := rfl
 theorem pur {α} (a : α) (s : PState) : (pure a : P α) s = .ok a s := rfl
 
+def prefixOps : List String := ["PLUSPLUS", "MINUSMINUS", "AND", "TIMES", "PLUS", "MINUS", "NOT", "LNOT"]
+def incDec : List String := ["PLUSPLUS", "MINUSMINUS"]
+def memberOps : List String := ["PERIOD", "ARROW"]
+def constKinds : List String := intConst ++ floatConst ++ charConst
+/-- first tokens of a primary expression / of any expression of the fragment -/
+def primHeads : List String := ["ID", "LPAREN"] ++ constKinds
+def exprHeads : List String := primHeads ++ prefixOps ++ ["SIZEOF"]
+
+/-- the `type` attribute `_parse_constant` gives a constant token (`none`: it raises) -/
+def constType (k v : String) : Option String :=
+  if k == "INT_CONST_CHAR" then some "int"
+  else if intConst.contains k then
+    if (countSuffix v).1 > 1 then none
+    else if (countSuffix v).2 > 2 then none
+    else some (repeatStr "unsigned " (countSuffix v).1 ++ repeatStr "long " (countSuffix v).2 ++ "int")
+  else if floatConst.contains k then
+    some (if v.toList.getLast? == some 'f' || v.toList.getLast? == some 'F' then "float"
+      else if v.toList.getLast? == some 'l' || v.toList.getLast? == some 'L' then "long double" else "double")
+  else if charConst.contains k then some "char"
+  else none
+
+def tc (n : Nat) : Option Coord := some ⟨"", n, some (n + 1)⟩
+
 inductive X where
   | id (x : String)
+  | const (k v t : String)
   | paren (e : X)
+  | pre (k v : String) (e : X)
+  | szof (e : X)
+  | post (k v : String) (e : X)
+  | index (e i : X)
+  | member (k v : String) (e : X) (f : String)
+  | call0 (f : X)
+  | call (f a : X)
   | bin (kind val : String) (l r : X)
   | cond (c t f : X)
   | assign (kind val : String) (l r : X)
@@ -29,7 +62,15 @@ namespace X
 
 def ntoks : X → Nat
   | id _ => 1
+  | const .. => 1
   | paren e => e.ntoks + 2
+  | pre _ _ e => e.ntoks + 1
+  | szof e => e.ntoks + 1
+  | post _ _ e => e.ntoks + 1
+  | index e i => e.ntoks + 1 + i.ntoks + 1
+  | member _ _ e _ => e.ntoks + 2
+  | call0 f => f.ntoks + 2
+  | call f a => f.ntoks + 1 + a.ntoks + 1
   | bin _ _ l r => l.ntoks + 1 + r.ntoks
   | cond c t f => c.ntoks + 1 + t.ntoks + 1 + f.ntoks
   | assign _ _ l r => l.ntoks + 1 + r.ntoks
@@ -37,7 +78,15 @@ def ntoks : X → Nat
 
 def flat : X → List Tk
   | id x => [("ID", x)]
+  | const k v _ => [(k, v)]
   | paren e => ("LPAREN", "(") :: (e.flat ++ [("RPAREN", ")")])
+  | pre k v e => (k, v) :: e.flat
+  | szof e => ("SIZEOF", "sizeof") :: e.flat
+  | post k v e => e.flat ++ [(k, v)]
+  | index e i => e.flat ++ ("LBRACKET", "[") :: (i.flat ++ [("RBRACKET", "]")])
+  | member k v e f => e.flat ++ [(k, v), ("ID", f)]
+  | call0 f => f.flat ++ [("LPAREN", "("), ("RPAREN", ")")]
+  | call f a => f.flat ++ ("LPAREN", "(") :: (a.flat ++ [("RPAREN", ")")])
   | bin k v l r => l.flat ++ [(k, v)] ++ r.flat
   | cond c t f => c.flat ++ [("CONDOP", "?")] ++ t.flat ++ [("COLON", ":")] ++ f.flat
   | assign k v l r => l.flat ++ [(k, v)] ++ r.flat
@@ -45,21 +94,43 @@ def flat : X → List Tk
 
 def coordOfVal (v : Val) : Option Coord := v.coord?.getD none
 
+def headCoord : List Val → Option Coord
+  | v :: _ => coordOfVal v
+  | [] => none
+
 mutual
 /-- the AST of the expression whose first token is at stream position `n` -/
 def val (n : Nat) : X → Val
   | id x => idNode n x
+  | const _ v t => mk .Constant (tc n) [.str t, .str v]
   | paren e => val (n + 1) e
+  | pre _ v e => mk .UnaryOp (coordOfVal (val (n + 1) e)) [.str v, val (n + 1) e]
+  | szof e => mk .UnaryOp (tc n) [.str "sizeof", val (n + 1) e]
+  | post _ v e => mk .UnaryOp (coordOfVal (val n e)) [.str ("p" ++ v), val n e]
+  | index e i => mk .ArrayRef (coordOfVal (val n e)) [val n e, val (n + e.ntoks + 1) i]
+  | member _ v e f => mk .StructRef (coordOfVal (val n e)) [val n e, .str v, idNode (n + e.ntoks + 1) f]
+  | call0 f => mk .FuncCall (coordOfVal (val n f)) [val n f, .none]
+  | call f a => mk .FuncCall (coordOfVal (val n f))
+      [val n f, mk .ExprList (headCoord (items (n + f.ntoks + 1) a)) [.list (items (n + f.ntoks + 1) a)]]
   | bin _ v l r => mk .BinaryOp (coordOfVal (val n l)) [.str v, val n l, val (n + l.ntoks + 1) r]
   | cond c t f => mk .TernaryOp (coordOfVal (val n c))
       [val n c, val (n + c.ntoks + 1) t, val (n + c.ntoks + 1 + t.ntoks + 1) f]
   | assign _ v l r => mk .Assignment (coordOfVal (val n l)) [.str v, val n l, val (n + l.ntoks + 1) r]
   | comma a b => mk .ExprList (coordOfVal (val n a)) [.list (val n a :: items (n + a.ntoks + 1) b)]
-/-- the operands of a comma expression, flattened along its right spine -/
+/-- the operands of a comma expression (or the arguments of a call), flattened along its right spine -/
 def items (n : Nat) : X → List Val
   | comma a b => val n a :: items (n + a.ntoks + 1) b
   | id x => [idNode n x]
+  | const _ v t => [mk .Constant (tc n) [.str t, .str v]]
   | paren e => [val (n + 1) e]
+  | pre _ v e => [mk .UnaryOp (coordOfVal (val (n + 1) e)) [.str v, val (n + 1) e]]
+  | szof e => [mk .UnaryOp (tc n) [.str "sizeof", val (n + 1) e]]
+  | post _ v e => [mk .UnaryOp (coordOfVal (val n e)) [.str ("p" ++ v), val n e]]
+  | index e i => [mk .ArrayRef (coordOfVal (val n e)) [val n e, val (n + e.ntoks + 1) i]]
+  | member _ v e f => [mk .StructRef (coordOfVal (val n e)) [val n e, .str v, idNode (n + e.ntoks + 1) f]]
+  | call0 f => [mk .FuncCall (coordOfVal (val n f)) [val n f, .none]]
+  | call f a => [mk .FuncCall (coordOfVal (val n f))
+      [val n f, mk .ExprList (headCoord (items (n + f.ntoks + 1) a)) [.list (items (n + f.ntoks + 1) a)]]]
   | bin k v l r => [mk .BinaryOp (coordOfVal (val n l)) [.str v, val n l, val (n + l.ntoks + 1) r]]
   | cond c t f => [mk .TernaryOp (coordOfVal (val n c))
       [val n c, val (n + c.ntoks + 1) t, val (n + c.ntoks + 1 + t.ntoks + 1) f]]
@@ -68,10 +139,18 @@ end
 
 end X
 
-/-- levels: 0 comma, 1 assignment, 2 conditional, 3 + m binary level m -/
+/-- levels: 0 comma, 1 assignment, 2 conditional, 3 + m binary level m, 13 unary, 14 postfix, 15 primary -/
 inductive WFX : Nat → X → Prop
   | id (L x) : WFX L (.id x)
+  | const (L k v t) : constType k v = some t → WFX L (.const k v t)
   | paren (L e) : WFX 0 e → WFX L (.paren e)
+  | pre (L k v e) : L ≤ 13 → k ∈ prefixOps → WFX 13 e → WFX L (.pre k v e)
+  | szof (L e) : L ≤ 13 → WFX 13 e → WFX L (.szof e)
+  | post (L k v e) : L ≤ 14 → k ∈ incDec → WFX 14 e → WFX L (.post k v e)
+  | index (L e i) : L ≤ 14 → WFX 14 e → WFX 0 i → WFX L (.index e i)
+  | member (L k v e f) : L ≤ 14 → k ∈ memberOps → WFX 14 e → WFX L (.member k v e f)
+  | call0 (L f) : L ≤ 14 → WFX 14 f → WFX L (.call0 f)
+  | call (L f a) : L ≤ 14 → WFX 14 f → WFX 0 a → WFX L (.call f a)
   | bin (L p k v l r) : binPrec k = some p → L ≤ 3 + p → WFX (3 + p) l → WFX (3 + p + 1) r → WFX L (.bin k v l r)
   | cond (L c t f) : L ≤ 2 → WFX 3 c → WFX 0 t → WFX 2 f → WFX L (.cond c t f)
   | assign (L k v l r) : L ≤ 1 → k ∈ assignmentOps → WFX 13 l → WFX 1 r → WFX L (.assign k v l r)
@@ -80,7 +159,15 @@ inductive WFX : Nat → X → Prop
 theorem WFX.weaken {L L' : Nat} {e : X} (h : WFX L e) (hl : L' ≤ L) : WFX L' e := by
   cases h with
   | id => exact .id _ _
+  | const _ _ _ _ h => exact .const _ _ _ _ h
   | paren _ _ h => exact .paren _ _ h
+  | pre _ _ _ _ hL hk h => exact .pre _ _ _ _ (by omega) hk h
+  | szof _ _ hL h => exact .szof _ _ (by omega) h
+  | post _ _ _ _ hL hk h => exact .post _ _ _ _ (by omega) hk h
+  | index _ _ _ hL h1 h2 => exact .index _ _ _ (by omega) h1 h2
+  | member _ _ _ _ _ hL hk h => exact .member _ _ _ _ _ (by omega) hk h
+  | call0 _ _ hL h => exact .call0 _ _ (by omega) h
+  | call _ _ _ hL h1 h2 => exact .call _ _ _ (by omega) h1 h2
   | bin _ p k v l r hp hL hl' hr => exact .bin _ p k v l r hp (by omega) hl' hr
   | cond _ c t f hL hc ht hf => exact .cond _ c t f (by omega) hc ht hf
   | assign _ k v l r hL hk hl' hr => exact .assign _ k v l r (by omega) hk hl' hr
@@ -88,17 +175,33 @@ theorem WFX.weaken {L L' : Nat} {e : X} (h : WFX L e) (hl : L' ≤ L) : WFX L' e
     have : L' = 0 := by omega
     subst this; exact .comma a b ha hb
 
-
 namespace X
 
-/-- generous fuel: enough for every entry point (`expression` ... `binaryExpression m`) at this node -/
+/-- generous fuel: enough for every entry point at this node -/
 def fuel : X → Nat
   | id _ => 10
+  | const .. => 10
   | paren e => e.fuel + 13
+  | pre _ _ e => e.fuel + 4
+  | szof e => e.fuel + 4
+  | post _ _ e => e.fuel + 2
+  | index e i => e.fuel + i.fuel + 4
+  | member _ _ e _ => e.fuel + 3
+  | call0 f => f.fuel + 3
+  | call f a => f.fuel + a.fuel + 6
   | bin _ _ l r => l.fuel + r.fuel + 3
   | cond c t f => c.fuel + t.fuel + f.fuel + 4
   | assign _ _ l r => l.fuel + r.fuel + 4
   | comma a b => a.fuel + b.fuel + 4
+
+/-- number of postfix steps at the root -/
+def sfx : X → Nat
+  | post _ _ e => e.sfx + 1
+  | index e _ => e.sfx + 1
+  | member _ _ e _ => e.sfx + 1
+  | call0 f => f.sfx + 1
+  | call f _ => f.sfx + 1
+  | _ => 0
 
 /-- size of the binary-operator tree rooted here (operands count 1) -/
 def btSize : X → Nat
@@ -108,8 +211,7 @@ def btSize : X → Nat
 /-- fuel of the most demanding operand of the binary-operator tree rooted here -/
 def opFuel : X → Nat
   | bin _ _ l r => max l.opFuel r.opFuel
-  | paren e => e.fuel + 4
-  | _ => 4
+  | e => e.fuel - 5
 
 /-- the binary-operator tree rooted here -/
 def toBT (n : Nat) : X → BT
@@ -130,93 +232,174 @@ def restItems (n : Nat) : X → List Val
   | comma a b => items (n + a.ntoks + 1) b
   | _ => []
 
+def isBin : X → Bool
+  | bin .. => true
+  | _ => false
+
 end X
 
-theorem flat_length : ∀ e : X, e.flat.length = e.ntoks
-  | .id _ => rfl
-  | .paren e => by simp [X.flat, X.ntoks, flat_length e]
-  | .bin _ _ l r => by simp [X.flat, X.ntoks, flat_length l, flat_length r]; omega
-  | .cond c t f => by simp [X.flat, X.ntoks, flat_length c, flat_length t, flat_length f]; omega
-  | .assign _ _ l r => by simp [X.flat, X.ntoks, flat_length l, flat_length r]; omega
-  | .comma a b => by simp [X.flat, X.ntoks, flat_length a, flat_length b]; omega
+theorem flat_length (e : X) : e.flat.length = e.ntoks := by
+  induction e <;> simp_all [X.flat, X.ntoks] <;> omega
 
-theorem val_isNode : ∀ (e : X) (n : Nat), (e.val n).isNode = true
-  | .id _, _ => rfl
-  | .paren e, n => val_isNode e (n + 1)
-  | .bin .., _ => rfl
-  | .cond .., _ => rfl
-  | .assign .., _ => rfl
-  | .comma .., _ => rfl
+theorem val_isNode (e : X) : ∀ n : Nat, (e.val n).isNode = true := by
+  induction e with
+  | paren e ih => intro n; exact ih (n + 1)
+  | _ => intro n; rfl
 
 theorem coordOf_val (e : X) (n : Nat) (s : PState) : coordOf (e.val n) s = .ok (X.coordOfVal (e.val n)) s :=
   coordOf_node (val_isNode e n) s
 
-theorem items_eq : ∀ (e : X) (n : Nat), X.items n e = (e.first.val n) :: e.restItems n
-  | .id _, _ => rfl
-  | .paren _, _ => rfl
-  | .bin .., _ => rfl
-  | .cond .., _ => rfl
-  | .assign .., _ => rfl
-  | .comma .., _ => rfl
+theorem items_eq (e : X) (n : Nat) : X.items n e = (e.first.val n) :: e.restItems n := by
+  cases e <;> rfl
 
-theorem toVal_toBT : ∀ (e : X) (n : Nat), toVal (e.toBT n) = e.val n
-  | .id _, _ => rfl
-  | .paren _, _ => rfl
-  | .cond .., _ => rfl
-  | .assign .., _ => rfl
-  | .comma .., _ => rfl
-  | .bin k v l r, n => by
-    simp only [X.toBT, toVal, X.val, toVal_toBT l n, toVal_toBT r]
-    rfl
+theorem toBT_leaf (e : X) (n : Nat) (h : e.isBin = false) : e.toBT n = .leaf (e.val n) := by
+  cases e <;> first | rfl | simp [X.isBin] at h
 
-theorem btSize_toBT : ∀ (e : X) (n : Nat), (e.toBT n).size = e.btSize
-  | .id _, _ => rfl
-  | .paren _, _ => rfl
-  | .cond .., _ => rfl
-  | .assign .., _ => rfl
-  | .comma .., _ => rfl
-  | .bin _ _ l r, n => by simp [X.toBT, BT.size, X.btSize, btSize_toBT l, btSize_toBT r]
+theorem toVal_toBT (e : X) : ∀ n : Nat, toVal (e.toBT n) = e.val n := by
+  induction e with
+  | bin k v l r ihl ihr => intro n; simp only [X.toBT, toVal, X.val, ihl n, ihr]; rfl
+  | _ => intro n; rfl
 
-theorem nodes_toBT : ∀ (e : X) (n : Nat), Nodes (e.toBT n)
-  | .id x, n => val_isNode (.id x) n
-  | .paren e, n => val_isNode (.paren e) n
-  | .cond c t f, n => val_isNode (.cond c t f) n
-  | .assign k v l r, n => val_isNode (.assign k v l r) n
-  | .comma a b, n => val_isNode (.comma a b) n
-  | .bin _ _ l r, n => ⟨nodes_toBT l n, nodes_toBT r _⟩
+theorem btSize_toBT (e : X) : ∀ n : Nat, (e.toBT n).size = e.btSize := by
+  induction e with
+  | bin k v l r ihl ihr => intro n; simp [X.toBT, BT.size, X.btSize, ihl, ihr]
+  | _ => intro n; rfl
+
+theorem nodes_toBT (e : X) : ∀ n : Nat, Nodes (e.toBT n) := by
+  induction e with
+  | bin k v l r ihl ihr => intro n; exact ⟨ihl n, ihr _⟩
+  | paren e _ => intro n; exact val_isNode (.paren e) n
+  | _ => intro n; rfl
+
+theorem fuel_ge (e : X) : 10 ≤ e.fuel := by
+  induction e <;> simp only [X.fuel] <;> omega
+
+theorem sfx_fuel (e : X) : e.sfx + 10 ≤ e.fuel := by
+  induction e <;> simp only [X.fuel, X.sfx] <;> omega
+
+theorem opFuel_leaf (e : X) (h : e.isBin = false) : e.opFuel = e.fuel - 5 := by
+  cases e <;> first | rfl | simp [X.isBin] at h
+
+/-- the binary-layer fuel is covered by `fuel` -/
+theorem fuelB_le (e : X) : 2 * e.btSize + e.opFuel + 3 ≤ e.fuel := by
+  induction e with
+  | bin k v l r ihl ihr => simp only [X.btSize, X.opFuel, X.fuel] at ihl ihr ⊢; omega
+  | id _ => simp [X.btSize, X.opFuel, X.fuel]
+  | const _ _ _ => simp [X.btSize, X.opFuel, X.fuel]
+  | paren e => have := fuel_ge e; simp only [X.btSize, X.opFuel, X.fuel]; omega
+  | pre _ _ e => have := fuel_ge e; simp only [X.btSize, X.opFuel, X.fuel]; omega
+  | szof e => have := fuel_ge e; simp only [X.btSize, X.opFuel, X.fuel]; omega
+  | post _ _ e => have := fuel_ge e; simp only [X.btSize, X.opFuel, X.fuel]; omega
+  | index e i => have := fuel_ge e; simp only [X.btSize, X.opFuel, X.fuel]; omega
+  | member _ _ e _ => have := fuel_ge e; simp only [X.btSize, X.opFuel, X.fuel]; omega
+  | call0 e => have := fuel_ge e; simp only [X.btSize, X.opFuel, X.fuel]; omega
+  | call e a => have := fuel_ge e; simp only [X.btSize, X.opFuel, X.fuel]; omega
+  | cond c t f => have := fuel_ge c; simp only [X.btSize, X.opFuel, X.fuel]; omega
+  | assign _ _ l r => have := fuel_ge l; simp only [X.btSize, X.opFuel, X.fuel]; omega
+  | comma a b => have := fuel_ge a; simp only [X.btSize, X.opFuel, X.fuel]; omega
+
+
+/-! ## first tokens -/
+
+/-- the token list starts like an expression: its first token is an expression head, and if that is
+`(`, so is the second (so the parentheses hold an expression, not a type name or a block) -/
+def HeadsOK (l : List Tk) : Prop :=
+  ∃ t r, l = t :: r ∧ t.1 ∈ exprHeads ∧ (t.1 = "LPAREN" → ∃ t2 r2, r = t2 :: r2 ∧ t2.1 ∈ exprHeads)
+
+theorem HeadsOK.append {l : List Tk} (h : HeadsOK l) (m : List Tk) : HeadsOK (l ++ m) := by
+  obtain ⟨t, r, rfl, ht, h2⟩ := h
+  refine ⟨t, r ++ m, rfl, ht, fun hl => ?_⟩
+  obtain ⟨t2, r2, rfl, ht2⟩ := h2 hl
+  exact ⟨t2, r2 ++ m, rfl, ht2⟩
+
+theorem heads_facts : ∀ k ∈ exprHeads, inSet (some k) declStart = false ∧ inSet (some k) startsExpressionSet = true ∧
+    k ≠ "LBRACE" ∧ k ≠ "SEMI" ∧ k ≠ "RPAREN" := by decide
+
+theorem primHeads_facts : ∀ k ∈ primHeads, k ∈ exprHeads ∧ inSet (some k) ["PLUSPLUS", "MINUSMINUS"] = false ∧
+    inSet (some k) ["AND", "TIMES", "PLUS", "MINUS", "NOT", "LNOT"] = false ∧ k ≠ "SIZEOF" ∧ k ≠ "_ALIGNOF" := by decide
+
+theorem constKinds_facts : ∀ k ∈ constKinds, k ∈ primHeads ∧ k ≠ "ID" ∧ k ≠ "LPAREN" ∧
+    (inSet (some k) intConst || inSet (some k) floatConst || inSet (some k) charConst) = true := by decide
+
+theorem prefixOps_facts : ∀ k ∈ prefixOps, k ∈ exprHeads ∧ k ≠ "LPAREN" := by decide
+
+theorem constType_kind {k v t : String} (h : constType k v = some t) : k ∈ constKinds := by
+  by_cases hk : k ∈ constKinds
+  · exact hk
+  · exfalso
+    simp only [constKinds, intConst, floatConst, charConst, List.cons_append, List.nil_append, List.mem_cons,
+      List.mem_nil_iff, or_false, not_or] at hk
+    simp [constType, intConst, floatConst, charConst, hk] at h
+
+theorem binPrec_le (k : String) (p : Nat) (h : binPrec k = some p) : p ≤ 9 := by
+  unfold binPrec binaryPrecedence at h
+  simp only [List.find?_cons, List.find?_nil] at h
+  repeat' split at h
+  all_goals simp at h
+  all_goals omega
+
+theorem flat_heads {L : Nat} {e : X} (h : WFX L e) : HeadsOK e.flat := by
+  induction h with
+  | id L x => exact ⟨("ID", x), [], rfl, (by decide : "ID" ∈ exprHeads), fun h => by simp at h⟩
+  | const L k v t hc =>
+    have := constKinds_facts k (constType_kind hc)
+    exact ⟨(k, v), [], rfl, (primHeads_facts k this.1).1, fun hl => absurd hl this.2.2.1⟩
+  | paren L e _ ih =>
+    obtain ⟨t, r, hfl, ht, _⟩ := ih
+    exact ⟨("LPAREN", "("), _, rfl, (by decide : "LPAREN" ∈ exprHeads), fun _ => ⟨t, r ++ [("RPAREN", ")")], by simp [hfl], ht⟩⟩
+  | pre L k v e _ hk _ _ =>
+    have := prefixOps_facts k hk
+    exact ⟨(k, v), _, rfl, this.1, fun hl => absurd hl this.2⟩
+  | szof L e _ _ _ => exact ⟨("SIZEOF", "sizeof"), _, rfl, (by decide : "SIZEOF" ∈ exprHeads), fun h => by simp at h⟩
+  | post L k v e _ _ _ ih => exact ih.append _
+  | index L e i _ _ _ ih _ => exact ih.append _
+  | member L k v e f _ _ _ ih => exact ih.append _
+  | call0 L f _ _ ih => exact ih.append _
+  | call L f a _ _ _ ih _ => exact ih.append _
+  | bin L p k v l r _ _ _ _ ihl _ => simpa [X.flat, List.append_assoc] using ihl.append ((k, v) :: r.flat)
+  | cond L c t f _ _ _ _ ihc _ _ =>
+    simpa [X.flat, List.append_assoc] using ihc.append (("CONDOP", "?") :: (t.flat ++ ("COLON", ":") :: f.flat))
+  | assign L k v l r _ _ _ _ ihl _ => simpa [X.flat, List.append_assoc] using ihl.append ((k, v) :: r.flat)
+  | comma a b _ _ iha _ => simpa [X.flat, List.append_assoc] using iha.append (("COMMA", ",") :: b.flat)
+
+/-- a postfix-level expression starts with an identifier, a constant or `(` -/
+theorem flat_head14 {e : X} (h : WFX 14 e) : ∃ t r, e.flat = t :: r ∧ t.1 ∈ primHeads := by
+  generalize hL : 14 = L at h
+  induction h with
+  | id L x => exact ⟨("ID", x), [], rfl, (by decide : "ID" ∈ primHeads)⟩
+  | const L k v t hc => exact ⟨(k, v), [], rfl, (constKinds_facts k (constType_kind hc)).1⟩
+  | paren L e _ _ => exact ⟨("LPAREN", "("), _, rfl, (by decide : "LPAREN" ∈ primHeads)⟩
+  | pre L k v e hL' _ _ _ => omega
+  | szof L e hL' _ _ => omega
+  | post L k v e _ _ _ ih => obtain ⟨t, r, h, ht⟩ := ih rfl; exact ⟨t, _, by rw [X.flat, h]; rfl, ht⟩
+  | index L e i _ _ _ ih _ => obtain ⟨t, r, h, ht⟩ := ih rfl; exact ⟨t, _, by rw [X.flat, h]; rfl, ht⟩
+  | member L k v e f _ _ _ ih => obtain ⟨t, r, h, ht⟩ := ih rfl; exact ⟨t, _, by rw [X.flat, h]; rfl, ht⟩
+  | call0 L f _ _ ih => obtain ⟨t, r, h, ht⟩ := ih rfl; exact ⟨t, _, by rw [X.flat, h]; rfl, ht⟩
+  | call L f a _ _ _ ih _ => obtain ⟨t, r, h, ht⟩ := ih rfl; exact ⟨t, _, by rw [X.flat, h]; rfl, ht⟩
+  | bin L p k v l r hp hL' _ _ _ _ => have := binPrec_le k p hp; omega
+  | cond L c t f hL' _ _ _ _ _ _ => omega
+  | assign L k v l r hL' _ _ _ _ _ => omega
+  | comma a b _ _ _ _ => omega
 
 theorem wf_toBT : ∀ (e : X) (m n : Nat), WFX (3 + m) e → WF binPrec m (e.toBT n)
-  | .id _, _, _, _ => .leaf _ _
-  | .paren _, _, _, _ => .leaf _ _
-  | .cond .., _, _, _ => .leaf _ _
-  | .assign .., _, _, _ => .leaf _ _
-  | .comma .., _, _, _ => .leaf _ _
   | .bin k v l r, m, n, h => by
     generalize hL : 3 + m = L at h
     cases h with
     | bin _ p _ _ _ _ hp hm hl hr =>
       exact .node _ p _ _ _ _ hp (by omega) (wf_toBT l p n hl) (wf_toBT r (p + 1) _ (by simpa [Nat.add_assoc] using hr))
-
-theorem fuel_ge : ∀ e : X, 10 ≤ e.fuel
-  | .id _ => by simp [X.fuel]
-  | .paren e => by have := fuel_ge e; simp only [X.fuel]; omega
-  | .bin _ _ l r => by have := fuel_ge l; simp only [X.fuel]; omega
-  | .cond c t f => by have := fuel_ge c; simp only [X.fuel]; omega
-  | .assign _ _ l r => by have := fuel_ge l; simp only [X.fuel]; omega
-  | .comma a b => by have := fuel_ge a; simp only [X.fuel]; omega
-
-/-- the binary-layer fuel is covered by `fuel` -/
-theorem fuelB_le : ∀ e : X, 2 * e.btSize + e.opFuel + 3 ≤ e.fuel
-  | .id _ => by simp [X.btSize, X.opFuel, X.fuel]
-  | .paren e => by simp only [X.btSize, X.opFuel, X.fuel]; omega
-  | .cond c t f => by have := fuel_ge c; simp only [X.btSize, X.opFuel, X.fuel]; omega
-  | .assign _ _ l r => by have := fuel_ge l; simp only [X.btSize, X.opFuel, X.fuel]; omega
-  | .comma a b => by have := fuel_ge a; simp only [X.btSize, X.opFuel, X.fuel]; omega
-  | .bin _ _ l r => by
-    have hl := fuelB_le l
-    have hr := fuelB_le r
-    simp only [X.btSize, X.opFuel, X.fuel] at hl hr ⊢
-    omega
+  | .id _, _, _, _ => .leaf _ _
+  | .const .., _, _, _ => .leaf _ _
+  | .paren _, _, _, _ => .leaf _ _
+  | .pre .., _, _, _ => .leaf _ _
+  | .szof _, _, _, _ => .leaf _ _
+  | .post .., _, _, _ => .leaf _ _
+  | .index .., _, _, _ => .leaf _ _
+  | .member .., _, _, _ => .leaf _ _
+  | .call0 _, _, _, _ => .leaf _ _
+  | .call .., _, _, _ => .leaf _ _
+  | .cond .., _, _, _ => .leaf _ _
+  | .assign .., _, _, _ => .leaf _ _
+  | .comma .., _, _, _ => .leaf _ _
 
 
 /-! ## what may follow an expression of each level -/
@@ -233,62 +416,425 @@ def EntryOK (nt : NT) (hres : nt.Res = Val) (e : X) (stopOK : String → Prop) (
       s'.idx = s.idx + e.ntoks
 
 /-- (the deeper the entry point, the less fuel it needs: `expression` calls `assignmentExpression`
-calls `conditionalExpression` calls `binaryExpression`) -/
+calls `conditionalExpression` calls `binaryExpression` calls `castExpression` ...) -/
 def BOK (e : X) : Prop := ∀ m, WFX (3 + m) e → EntryOK (.binaryExpression m none) rfl e StopB 3
 def COK (e : X) : Prop := WFX 2 e → EntryOK .conditionalExpression rfl e StopC 2
 def AOK (e : X) : Prop := WFX 1 e → EntryOK .assignmentExpression rfl e StopA 1
 def XOK (e : X) : Prop := WFX 0 e → EntryOK .expression rfl e StopX 0
 
-/-- operands of the binary layer: an identifier, or a parenthesised expression of any level -/
-def Op (n : Nat) (a : Val) (ta : List Tk) (fa : Nat) : Prop :=
-  (∃ x, ta = [("ID", x)] ∧ a = idNode n x ∧ fa = 4) ∨
-  (∃ e : X, ta = (X.paren e).flat ∧ a = e.val (n + 1) ∧ fa = e.fuel + 4 ∧ WFX 0 e ∧ XOK e)
+/-- the operand entry points: what follows only has to be no postfix operator (it may be nothing) -/
+def OperandOK (nt : NT) (hres : nt.Res = Val) (e : X) (slack : Nat) : Prop :=
+  ∀ (s : PState) (rest : List Tk), FollowOp rest → SeesT s (e.flat ++ rest) →
+    ∀ F, e.fuel ≤ F + slack → ∃ s', run F nt s = .ok (hres ▸ e.val s.idx) s' ∧ SeesT s' rest ∧
+      s'.idx = s.idx + e.ntoks
 
-theorem flat_head : ∀ e : X, ∃ t r, e.flat = t :: r ∧ (t.1 = "ID" ∨ t.1 = "LPAREN")
-  | .id x => ⟨_, _, rfl, .inl rfl⟩
-  | .paren e => ⟨_, _, rfl, .inr rfl⟩
-  | .bin k v l r => by
-    obtain ⟨t, r', h, ht⟩ := flat_head l
-    exact ⟨t, r' ++ [(k, v)] ++ r.flat, by simp [X.flat, h], ht⟩
-  | .cond c t f => by
-    obtain ⟨t', r', h, ht⟩ := flat_head c
-    exact ⟨t', r' ++ ("CONDOP", "?") :: (t.flat ++ ("COLON", ":") :: f.flat), by simp [X.flat, h], ht⟩
-  | .assign k v l r => by
-    obtain ⟨t, r', h, ht⟩ := flat_head l
-    exact ⟨t, r' ++ [(k, v)] ++ r.flat, by simp [X.flat, h], ht⟩
-  | .comma a b => by
-    obtain ⟨t, r', h, ht⟩ := flat_head a
-    exact ⟨t, r' ++ ("COMMA", ",") :: b.flat, by simp [X.flat, h], ht⟩
+def CastOK (e : X) : Prop := WFX 13 e → OperandOK .castExpression rfl e 5
+def UnOK (e : X) : Prop := WFX 13 e → OperandOK .unaryExpression rfl e 6
+
+/-- the postfix level in continuation form: parsing `e` as a postfix expression is the same as
+entering the suffix loop with the value of `e` after its tokens (so more suffixes may follow) -/
+def PostCPS (e : X) : Prop :=
+  WFX 14 e → ∀ (s : PState) (rest : List Tk) (F : Nat), SeesT s (e.flat ++ rest) → e.fuel ≤ F + 7 →
+    ∃ s1 G, SeesT s1 rest ∧ s1.idx = s.idx + e.ntoks ∧ F ≤ G + e.sfx + 2 ∧
+      run F (.postfixExpression none) s = run G (.postfixLoop (e.val s.idx)) s1
 
 theorem stopX_rparen : StopX "RPAREN" := by
   refine ⟨⟨⟨⟨by decide, by decide⟩, by decide⟩, by decide⟩, by decide⟩
+theorem stopX_rbracket : StopX "RBRACKET" := by
+  refine ⟨⟨⟨⟨by decide, by decide⟩, by decide⟩, by decide⟩, by decide⟩
+
+/-! ## the productions below the binary layer -/
+
+/-- `_try_parse_paren_type_name` on the first tokens of an expression: no type name -/
+theorem tryParen_expr (F : Nat) (s : PState) (toks : List Tk) (hs : SeesT s toks) (hh : HeadsOK toks) :
+    ∃ s', run (F + 1) .tryParenTypeName s = .ok none s' ∧ SeesT s' toks ∧ s'.idx = s.idx := by
+  obtain ⟨t, r, rfl, ht, h2⟩ := hh
+  by_cases hl : t.1 = "LPAREN"
+  · obtain ⟨t2, r2, rfl, ht2⟩ := h2 hl
+    obtain ⟨k, v⟩ := t
+    simp only at hl; subst hl
+    obtain ⟨s2, h2', hs2, hi2, hb2⟩ := accept_same s "LPAREN" v (t2 :: r2) hs
+    obtain ⟨s3, h3, hs3, hi3, hext, hsz⟩ := peekType_spec s2 (t2 :: r2) hs2
+    have hlt : s.idx < s2.buf.size := (Array.getElem?_eq_some_iff.mp hb2).1
+    have hb3 : s3.buf[s.idx]? = some (some ⟨"LPAREN", v, s.idx⟩) := by rw [hext _ hlt]; exact hb2
+    obtain ⟨s4, h4, hs4, _, hi4, _⟩ := reset_one s3 (t2 :: r2) s.idx _ hs3 (by omega) hb3
+    refine ⟨s4, ?_, hs4, hi4⟩
+    have hnd : inSet (some t2.1) declStart = false := (heads_facts _ ht2).1
+    show pTryParenTypeName (run F) s = _
+    simp [pTryParenTypeName, bnd, mark, h2', startsDeclaration, h3, hnd, h4, pur]
+  · exact tryParen_none F s _ hs (by intro k v r h; cases h; exact hl)
+
+/-- `_parse_constant` -/
+theorem pConstant_ok (s : PState) (k v t : String) (rest : List Tk) (hs : SeesT s ((k, v) :: rest))
+    (hc : constType k v = some t) :
+    ∃ s', pConstant s = .ok (mk .Constant (tc s.idx) [.str t, .str v]) s' ∧
+      SeesT s' rest ∧ s'.idx = s.idx + 1 := by
+  obtain ⟨s2, h2, hs2, _, hi2, _⟩ := advance_spec s k v rest hs
+  refine ⟨s2, ?_, hs2, hi2⟩
+  unfold constType at hc
+  simp only [pConstant, bnd, h2]
+  by_cases c1 : (k == "INT_CONST_CHAR") = true
+  · simp only [c1, Bool.false_eq_true, ↓reduceIte, Option.some.injEq] at hc ⊢
+    subst hc; simp [tokCoord, pur, bnd, tc]
+  · simp only [c1, Bool.false_eq_true, ↓reduceIte] at hc ⊢
+    by_cases c2 : intConst.contains k = true
+    · simp only [c2, Bool.false_eq_true, ↓reduceIte] at hc ⊢
+      by_cases c3 : (countSuffix v).1 > 1
+      · simp [c3] at hc
+      · simp only [c3, Bool.false_eq_true, ↓reduceIte] at hc ⊢
+        by_cases c4 : (countSuffix v).2 > 2
+        · simp [c4] at hc
+        · simp only [c4, Bool.false_eq_true, ↓reduceIte, Option.some.injEq] at hc ⊢
+          subst hc; simp [tokCoord, pur, bnd, tc]
+    · simp only [c2, Bool.false_eq_true, ↓reduceIte] at hc ⊢
+      by_cases c5 : floatConst.contains k = true
+      · simp only [c5, Bool.false_eq_true, ↓reduceIte, Option.some.injEq] at hc ⊢
+        subst hc; simp [tokCoord, pur, bnd, tc]
+      · simp only [c5, Bool.false_eq_true, ↓reduceIte] at hc ⊢
+        by_cases c6 : charConst.contains k = true
+        · simp only [c6, Bool.false_eq_true, ↓reduceIte, Option.some.injEq] at hc ⊢
+          subst hc; simp [tokCoord, pur, bnd, tc]
+        · simp only [c6, Bool.false_eq_true, ↓reduceIte] at hc; cases hc
+
+/-- a constant -/
+theorem primary_const (F : Nat) (s : PState) (k v t : String) (rest : List Tk) (hs : SeesT s ((k, v) :: rest))
+    (hc : constType k v = some t) :
+    ∃ s', run (F + 1) .primaryExpression s = .ok (mk .Constant (tc s.idx) [.str t, .str v]) s' ∧
+      SeesT s' rest ∧ s'.idx = s.idx + 1 := by
+  have hk := constKinds_facts k (constType_kind hc)
+  obtain ⟨s1, h1, hs1, hi1, _⟩ := peekType_spec s _ hs
+  obtain ⟨s2, h2, hs2, hi2⟩ := pConstant_ok s1 k v t rest hs1 hc
+  refine ⟨s2, ?_, hs2, by omega⟩
+  have hor : (inSet (some k) intConst = true ∨ inSet (some k) floatConst = true) ∨ inSet (some k) charConst = true := by
+    simpa [Bool.or_eq_true] using hk.2.2.2
+  rw [hi1] at h2
+  show pPrimaryExpression (run F) s = _
+  simp [pPrimaryExpression, bnd, h1, hk.2.1, hor, h2]
+
+/-- the start of `_parse_postfix_expression`: no compound literal; a primary expression, then the loop -/
+theorem post_start (F : Nat) (s : PState) (toks rest : List Tk) (v : Val) (i1 : Nat) (hs : SeesT s toks)
+    (hh : HeadsOK toks)
+    (hp : ∀ s0, SeesT s0 toks → s0.idx = s.idx →
+      ∃ s1, run (F + 1) .primaryExpression s0 = .ok v s1 ∧ SeesT s1 rest ∧ s1.idx = i1) :
+    ∃ s1, SeesT s1 rest ∧ s1.idx = i1 ∧
+      run (F + 2) (.postfixExpression none) s = run (F + 1) (.postfixLoop v) s1 := by
+  obtain ⟨s1, h1, hs1, hi1⟩ := tryParen_expr F s toks hs hh
+  obtain ⟨s2, h2, hs2, hi2⟩ := hp s1 hs1 hi1
+  refine ⟨s2, hs2, hi2, ?_⟩
+  show pPostfixExpression (run (F + 1)) none s = _
+  simp [pPostfixExpression, bnd, h1, h2, pur]
+
+theorem mem_ne {k : String} {l : List String} {x : String} (hk : k ∈ l) (hx : x ∉ l) : k ≠ x := by
+  intro h; subst h; exact hx hk
+
+/-- one turn of the suffix loop: `++` / `--` -/
+theorem loop_incdec (G : Nat) (s : PState) (ev : Val) (k v : String) (rest : List Tk)
+    (hs : SeesT s ((k, v) :: rest)) (hk : k ∈ incDec) (hn : ev.isNode = true) :
+    ∃ s', SeesT s' rest ∧ s'.idx = s.idx + 1 ∧
+      run (G + 1) (.postfixLoop ev) s =
+        run G (.postfixLoop (mk .UnaryOp (X.coordOfVal ev) [.str ("p" ++ v), ev])) s' := by
+  obtain ⟨s1, h1, hs1, hi1⟩ := accept_other s _ "LBRACKET" hs
+    (by intro k' v' r h; cases h; exact mem_ne hk (by decide))
+  obtain ⟨s2, h2, hs2, hi2⟩ := accept_other s1 _ "LPAREN" hs1
+    (by intro k' v' r h; cases h; exact mem_ne hk (by decide))
+  obtain ⟨s3, h3, hs3, hi3, _⟩ := peekType_spec s2 _ hs2
+  obtain ⟨s4, h4, hs4, hi4, _⟩ := peekType_spec s3 _ hs3
+  obtain ⟨s5, h5, hs5, _, hi5, _⟩ := advance_spec s4 k v rest hs4
+  have hset1 : inSet (some k) ["PERIOD", "ARROW"] = false := by
+    simp only [incDec, List.mem_cons, List.mem_nil_iff, or_false] at hk
+    rcases hk with rfl | rfl <;> decide
+  have hset2 : inSet (some k) ["PLUSPLUS", "MINUSMINUS"] = true := by
+    simp only [incDec, List.mem_cons, List.mem_nil_iff, or_false] at hk
+    rcases hk with rfl | rfl <;> decide
+  have hco := coordOf_node hn s5
+  refine ⟨s5, hs5, by omega, ?_⟩
+  show pPostfixLoop (run G) ev s = _
+  simp [pPostfixLoop, bnd, h1, h2, h3, h4, hset1, hset2, h5, hco, pur, X.coordOfVal]
+
+/-- one turn of the suffix loop: `. name` / `-> name` -/
+theorem loop_member (G : Nat) (s : PState) (ev : Val) (k v f : String) (rest : List Tk)
+    (hs : SeesT s ((k, v) :: ("ID", f) :: rest)) (hk : k ∈ memberOps) (hn : ev.isNode = true) :
+    ∃ s', SeesT s' rest ∧ s'.idx = s.idx + 2 ∧
+      run (G + 1) (.postfixLoop ev) s =
+        run G (.postfixLoop (mk .StructRef (X.coordOfVal ev) [ev, .str v, idNode (s.idx + 1) f])) s' := by
+  obtain ⟨s1, h1, hs1, hi1⟩ := accept_other s _ "LBRACKET" hs
+    (by intro k' v' r h; cases h; exact mem_ne hk (by decide))
+  obtain ⟨s2, h2, hs2, hi2⟩ := accept_other s1 _ "LPAREN" hs1
+    (by intro k' v' r h; cases h; exact mem_ne hk (by decide))
+  obtain ⟨s3, h3, hs3, hi3, _⟩ := peekType_spec s2 _ hs2
+  obtain ⟨s4, h4, hs4, _, hi4, _⟩ := advance_spec s3 k v _ hs3
+  obtain ⟨s5, h5, hs5, _, hi5, _⟩ := advance_spec s4 "ID" f rest hs4
+  have hset1 : inSet (some k) ["PERIOD", "ARROW"] = true := by
+    simp only [memberOps, List.mem_cons, List.mem_nil_iff, or_false] at hk
+    rcases hk with rfl | rfl <;> decide
+  have hco := coordOf_node hn s5
+  refine ⟨s5, hs5, by omega, ?_⟩
+  have e4 : s4.idx = s.idx + 1 := by omega
+  show pPostfixLoop (run G) ev s = _
+  simp [pPostfixLoop, bnd, h1, h2, h3, hset1, h4, h5, hco, pur, X.coordOfVal, mkID, tokCoord, idNode, e4]
+
+/-- one turn of the suffix loop: `[ expression ]` -/
+theorem loop_index (G : Nat) (s : PState) (ev iv : Val) (inner rest : List Tk) (i1 : Nat)
+    (hs : SeesT s (("LBRACKET", "[") :: (inner ++ ("RBRACKET", "]") :: rest)))
+    (he : ∀ s0, SeesT s0 (inner ++ ("RBRACKET", "]") :: rest) → s0.idx = s.idx + 1 →
+      ∃ s1, run G .expression s0 = .ok iv s1 ∧ SeesT s1 (("RBRACKET", "]") :: rest) ∧ s1.idx = i1)
+    (hn : ev.isNode = true) :
+    ∃ s', SeesT s' rest ∧ s'.idx = i1 + 1 ∧
+      run (G + 1) (.postfixLoop ev) s = run G (.postfixLoop (mk .ArrayRef (X.coordOfVal ev) [ev, iv])) s' := by
+  obtain ⟨s1, h1, hs1, hi1, _⟩ := accept_same s "LBRACKET" "[" _ hs
+  obtain ⟨s2, h2, hs2, hi2⟩ := he s1 hs1 hi1
+  obtain ⟨s3, h3, hs3, hi3⟩ := expect_same s2 "RBRACKET" "]" rest hs2
+  have hco := coordOf_node hn s3
+  refine ⟨s3, hs3, by omega, ?_⟩
+  show pPostfixLoop (run G) ev s = _
+  simp [pPostfixLoop, bnd, h1, h2, h3, hco, pur, X.coordOfVal]
+
+/-- one turn of the suffix loop: `( )` -/
+theorem loop_call0 (G : Nat) (s : PState) (ev : Val) (rest : List Tk)
+    (hs : SeesT s (("LPAREN", "(") :: ("RPAREN", ")") :: rest)) (hn : ev.isNode = true) :
+    ∃ s', SeesT s' rest ∧ s'.idx = s.idx + 2 ∧
+      run (G + 1) (.postfixLoop ev) s = run G (.postfixLoop (mk .FuncCall (X.coordOfVal ev) [ev, .none])) s' := by
+  obtain ⟨s1, h1, hs1, hi1⟩ := accept_other s _ "LBRACKET" hs (by intro k' v' r h; cases h; decide)
+  obtain ⟨s2, h2, hs2, hi2, _⟩ := accept_same s1 "LPAREN" "(" _ hs1
+  obtain ⟨s3, h3, hs3, hi3, _⟩ := peekType_spec s2 _ hs2
+  obtain ⟨s4, h4, hs4, _, hi4, _⟩ := advance_spec s3 "RPAREN" ")" rest hs3
+  have hco := coordOf_node hn s4
+  refine ⟨s4, hs4, by omega, ?_⟩
+  show pPostfixLoop (run G) ev s = _
+  simp [pPostfixLoop, bnd, h1, h2, h3, h4, hco, pur, X.coordOfVal]
+
+/-- one turn of the suffix loop: `( arguments )` -/
+theorem loop_call (G : Nat) (s : PState) (ev first : Val) (l : List Val) (inner rest : List Tk) (i1 : Nat)
+    (hs : SeesT s (("LPAREN", "(") :: (inner ++ ("RPAREN", ")") :: rest)))
+    (hin : ∃ t r, inner = t :: r ∧ t.1 ≠ "RPAREN")
+    (hargs : ∀ s0, SeesT s0 (inner ++ ("RPAREN", ")") :: rest) → s0.idx = s.idx + 1 →
+      ∃ s1 s2, run G .assignmentExpression s0 = .ok first s1 ∧ run G (.argListLoop [first]) s1 = .ok l s2 ∧
+        SeesT s2 (("RPAREN", ")") :: rest) ∧ s2.idx = i1)
+    (hf : first.isNode = true) (hn : ev.isNode = true) :
+    ∃ s', SeesT s' rest ∧ s'.idx = i1 + 1 ∧
+      run (G + 1) (.postfixLoop ev) s =
+        run G (.postfixLoop (mk .FuncCall (X.coordOfVal ev) [ev, mk .ExprList (X.coordOfVal first) [.list l]])) s' := by
+  obtain ⟨t, r, rfl, htr⟩ := hin
+  obtain ⟨s1, h1, hs1, hi1⟩ := accept_other s _ "LBRACKET" hs (by intro k' v' r h; cases h; decide)
+  obtain ⟨s2, h2, hs2, hi2, _⟩ := accept_same s1 "LPAREN" "(" _ hs1
+  obtain ⟨s3, h3, hs3, hi3, _⟩ := peekType_spec s2 _ hs2
+  obtain ⟨s4, s5, h4, h5, hs5, hi5⟩ := hargs s3 hs3 (by omega)
+  obtain ⟨s6, h6, hs6, hi6⟩ := expect_same s5 "RPAREN" ")" rest hs5
+  have hco1 := coordOf_node hf s5
+  have hco := coordOf_node hn s6
+  refine ⟨s6, hs6, by omega, ?_⟩
+  show pPostfixLoop (run G) ev s = _
+  simp [pPostfixLoop, bnd, h1, h2, h3, htr, h4, h5, hco1, h6, hco, pur, X.coordOfVal]
+
+
+/-! ## the postfix level -/
+
+theorem cps_id (x : String) : PostCPS (.id x) := by
+  intro hwf s rest F hs hF
+  obtain ⟨F', rfl⟩ : ∃ F', F = F' + 2 := ⟨F - 2, by simp only [X.fuel] at hF; omega⟩
+  obtain ⟨s1, hs1, hi1, heq⟩ := post_start F' s _ rest (idNode s.idx x) (s.idx + 1) hs ((flat_heads hwf).append rest)
+    (fun s0 h0 hi0 => by
+      obtain ⟨s1, h1, hs1, hi1⟩ := primary_id F' s0 x rest (by simpa [X.flat] using h0)
+      exact ⟨s1, by rw [h1, hi0]; rfl, hs1, by omega⟩)
+  exact ⟨s1, F' + 1, hs1, by simpa [X.ntoks] using hi1, by simp [X.sfx], by simpa [X.val] using heq⟩
+
+theorem cps_const (k v t : String) : PostCPS (.const k v t) := by
+  intro hwf s rest F hs hF
+  obtain ⟨F', rfl⟩ : ∃ F', F = F' + 2 := ⟨F - 2, by simp only [X.fuel] at hF; omega⟩
+  have hc : constType k v = some t := by cases hwf with | const _ _ _ _ h => exact h
+  obtain ⟨s1, hs1, hi1, heq⟩ := post_start F' s _ rest ((X.const k v t).val s.idx) (s.idx + 1) hs
+    ((flat_heads hwf).append rest)
+    (fun s0 h0 hi0 => by
+      obtain ⟨s1, h1, hs1, hi1⟩ := primary_const F' s0 k v t rest (by simpa [X.flat] using h0) hc
+      exact ⟨s1, by rw [h1, hi0]; rfl, hs1, by omega⟩)
+  exact ⟨s1, F' + 1, hs1, by simpa [X.ntoks] using hi1, by simp [X.sfx], heq⟩
+
+theorem cps_paren (e : X) (hx : XOK e) : PostCPS (.paren e) := by
+  intro hwf s rest F hs hF
+  obtain ⟨F', rfl⟩ : ∃ F', F = F' + 2 := ⟨F - 2, by simp only [X.fuel] at hF; have := fuel_ge e; omega⟩
+  simp only [X.fuel] at hF
+  have hw : WFX 0 e := by cases hwf with | paren _ _ h => exact h
+  obtain ⟨s1, hs1, hi1, heq⟩ := post_start F' s _ rest (e.val (s.idx + 1)) (s.idx + 1 + e.ntoks + 1) hs
+    ((flat_heads hwf).append rest)
+    (fun s0 h0 hi0 => by
+      have h0' : SeesT s0 (("LPAREN", "(") :: (e.flat ++ ("RPAREN", ")") :: rest)) := by simpa [X.flat] using h0
+      obtain ⟨s1, h1, hs1, hi1⟩ := ParenExpr.primary_paren F' s0 (e.val (s.idx + 1)) e.flat rest (s.idx + 1 + e.ntoks) h0'
+        (fun sa ha hia => by
+          obtain ⟨sb, hb, hsb, hib⟩ := hx hw sa ("RPAREN", ")") rest stopX_rparen ha F' (by omega)
+          exact ⟨sb, by rw [hb, hia, hi0], hsb, by omega⟩)
+      exact ⟨s1, h1, hs1, hi1⟩)
+  exact ⟨s1, F' + 1, hs1, by simp only [X.ntoks]; omega, by simp [X.sfx], by simpa [X.val] using heq⟩
+
+theorem cps_post (k v : String) (e : X) (ih : PostCPS e) : PostCPS (.post k v e) := by
+  intro hwf s rest F hs hF
+  cases hwf with
+  | post _ _ _ _ _ hk hw =>
+    simp only [X.fuel] at hF
+    have hsf := sfx_fuel e
+    have hs0 : SeesT s (e.flat ++ (k, v) :: rest) := by simpa [X.flat] using hs
+    obtain ⟨s1, G, hs1, hi1, hG, heq⟩ := ih hw s ((k, v) :: rest) F hs0 (by omega)
+    obtain ⟨G', rfl⟩ : ∃ G', G = G' + 1 := ⟨G - 1, by omega⟩
+    obtain ⟨s2, hs2, hi2, hstep⟩ := loop_incdec G' s1 (e.val s.idx) k v rest hs1 hk (val_isNode _ _)
+    exact ⟨s2, G', hs2, by simp only [X.ntoks]; omega, by simp only [X.sfx]; omega, by rw [heq, hstep]; rfl⟩
+
+theorem cps_member (k v : String) (e : X) (f : String) (ih : PostCPS e) : PostCPS (.member k v e f) := by
+  intro hwf s rest F hs hF
+  cases hwf with
+  | member _ _ _ _ _ _ hk hw =>
+    simp only [X.fuel] at hF
+    have hsf := sfx_fuel e
+    have hs0 : SeesT s (e.flat ++ (k, v) :: ("ID", f) :: rest) := by simpa [X.flat] using hs
+    obtain ⟨s1, G, hs1, hi1, hG, heq⟩ := ih hw s _ F hs0 (by omega)
+    obtain ⟨G', rfl⟩ : ∃ G', G = G' + 1 := ⟨G - 1, by omega⟩
+    obtain ⟨s2, hs2, hi2, hstep⟩ := loop_member G' s1 (e.val s.idx) k v f rest hs1 hk (val_isNode _ _)
+    refine ⟨s2, G', hs2, by simp only [X.ntoks]; omega, by simp only [X.sfx]; omega, ?_⟩
+    rw [heq, hstep, hi1]; rfl
+
+theorem cps_call0 (e : X) (ih : PostCPS e) : PostCPS (.call0 e) := by
+  intro hwf s rest F hs hF
+  cases hwf with
+  | call0 _ _ _ hw =>
+    simp only [X.fuel] at hF
+    have hsf := sfx_fuel e
+    have hs0 : SeesT s (e.flat ++ ("LPAREN", "(") :: ("RPAREN", ")") :: rest) := by simpa [X.flat] using hs
+    obtain ⟨s1, G, hs1, hi1, hG, heq⟩ := ih hw s _ F hs0 (by omega)
+    obtain ⟨G', rfl⟩ : ∃ G', G = G' + 1 := ⟨G - 1, by omega⟩
+    obtain ⟨s2, hs2, hi2, hstep⟩ := loop_call0 G' s1 (e.val s.idx) rest hs1 (val_isNode _ _)
+    exact ⟨s2, G', hs2, by simp only [X.ntoks]; omega, by simp only [X.sfx]; omega, by rw [heq, hstep]; rfl⟩
+
+theorem cps_index (e i : X) (ih : PostCPS e) (hx : XOK i) : PostCPS (.index e i) := by
+  intro hwf s rest F hs hF
+  cases hwf with
+  | index _ _ _ _ hw hwi =>
+    simp only [X.fuel] at hF
+    have hsf := sfx_fuel e
+    have hs0 : SeesT s (e.flat ++ ("LBRACKET", "[") :: (i.flat ++ ("RBRACKET", "]") :: rest)) := by
+      simpa [X.flat] using hs
+    obtain ⟨s1, G, hs1, hi1, hG, heq⟩ := ih hw s _ F hs0 (by omega)
+    obtain ⟨G', rfl⟩ : ∃ G', G = G' + 1 := ⟨G - 1, by omega⟩
+    obtain ⟨s2, hs2, hi2, hstep⟩ := loop_index G' s1 (e.val s.idx) (i.val (s.idx + e.ntoks + 1)) i.flat rest
+      (s.idx + e.ntoks + 1 + i.ntoks) hs1
+      (fun sa ha hia => by
+        obtain ⟨sb, hb, hsb, hib⟩ := hx hwi sa ("RBRACKET", "]") rest stopX_rbracket ha G' (by omega)
+        exact ⟨sb, by rw [hb, hia, hi1], hsb, by omega⟩)
+      (val_isNode _ _)
+    exact ⟨s2, G', hs2, by simp only [X.ntoks]; omega, by simp only [X.sfx]; omega, by rw [heq, hstep]; rfl⟩
+
+/-- the postfix entry point -/
+theorem un_of_cps (e : X) (hw14 : WFX 14 e) (h : PostCPS e) : OperandOK .unaryExpression rfl e 6 := by
+  intro s rest hfo hs F hF
+  have hsf := sfx_fuel e
+  obtain ⟨F', rfl⟩ : ∃ F', F = F' + 1 := ⟨F - 1, by omega⟩
+  obtain ⟨t, r, hfl, ht⟩ := flat_head14 hw14
+  have pf := primHeads_facts t.1 ht
+  have hs0 : SeesT s (t :: (r ++ rest)) := by simpa [hfl] using hs
+  obtain ⟨s1, h1, hs1, hi1, _⟩ := peekType_spec s _ hs0
+  have hs1' : SeesT s1 (e.flat ++ rest) := by simpa [hfl] using hs1
+  obtain ⟨s2, G, hs2, hi2, hG, heq⟩ := h hw14 s1 rest F' hs1' (by omega)
+  obtain ⟨G', rfl⟩ : ∃ G', G = G' + 1 := ⟨G - 1, by omega⟩
+  obtain ⟨s3, h3, hs3, hi3⟩ := postfixLoop_stop G' s2 (e.val s1.idx) rest hs2 hfo
+  refine ⟨s3, ?_, hs3, by omega⟩
+  rw [hi1] at heq h3
+  show pUnaryExpression (run F') s = _
+  simp [pUnaryExpression, bnd, h1, pf.2.1, pf.2.2.1, pf.2.2.2.1, pf.2.2.2.2, heq, h3]
+
+theorem prefix_split : ∀ k ∈ prefixOps, inSet (some k) ["PLUSPLUS", "MINUSMINUS"] = true ∨
+    (inSet (some k) ["PLUSPLUS", "MINUSMINUS"] = false ∧
+      inSet (some k) ["AND", "TIMES", "PLUS", "MINUS", "NOT", "LNOT"] = true) := by decide
+
+/-- a prefix operator -/
+theorem un_pre (k v : String) (e : X) (hc : CastOK e) (hu : UnOK e) : UnOK (.pre k v e) := by
+  intro hwf s rest hfo hs F hF
+  cases hwf with
+  | pre _ _ _ _ _ hk hw =>
+    simp only [X.fuel] at hF
+    obtain ⟨F', rfl⟩ : ∃ F', F = F' + 1 := ⟨F - 1, by have := fuel_ge e; omega⟩
+    have hs0 : SeesT s ((k, v) :: (e.flat ++ rest)) := by simpa [X.flat] using hs
+    obtain ⟨s1, h1, hs1, hi1, _⟩ := peekType_spec s _ hs0
+    obtain ⟨s2, h2, hs2, _, hi2, _⟩ := advance_spec s1 k v _ hs1
+    have e2 : s2.idx = s.idx + 1 := by omega
+    rcases prefix_split k hk with hin | ⟨hn1, hin⟩
+    · obtain ⟨s3, h3, hs3, hi3⟩ := hu hw s2 rest hfo hs2 F' (by omega)
+      have hco := coordOf_val e (s.idx + 1) s3
+      refine ⟨s3, ?_, hs3, by simp only [X.ntoks]; omega⟩
+      rw [e2] at h3
+      show pUnaryExpression (run F') s = _
+      simp [pUnaryExpression, bnd, h1, hin, h2, h3, hco, pur, X.val]
+    · obtain ⟨s3, h3, hs3, hi3⟩ := hc hw s2 rest hfo hs2 F' (by omega)
+      have hco := coordOf_val e (s.idx + 1) s3
+      refine ⟨s3, ?_, hs3, by simp only [X.ntoks]; omega⟩
+      rw [e2] at h3
+      show pUnaryExpression (run F') s = _
+      simp [pUnaryExpression, bnd, h1, hn1, hin, h2, h3, hco, pur, X.val]
+
+/-- `sizeof unary-expression` -/
+theorem un_szof (e : X) (hu : UnOK e) : UnOK (.szof e) := by
+  intro hwf s rest hfo hs F hF
+  cases hwf with
+  | szof _ _ _ hw =>
+    simp only [X.fuel] at hF
+    obtain ⟨F', rfl⟩ : ∃ F', F = F' + 2 := ⟨F - 2, by have := fuel_ge e; omega⟩
+    have hs0 : SeesT s (("SIZEOF", "sizeof") :: (e.flat ++ rest)) := by simpa [X.flat] using hs
+    obtain ⟨s1, h1, hs1, hi1, _⟩ := peekType_spec s _ hs0
+    obtain ⟨s2, h2, hs2, _, hi2, _⟩ := advance_spec s1 "SIZEOF" "sizeof" _ hs1
+    obtain ⟨s3, h3, hs3, hi3⟩ := tryParen_expr F' s2 _ hs2 ((flat_heads hw).append rest)
+    have e3 : s3.idx = s.idx + 1 := by omega
+    obtain ⟨s4, h4, hs4, hi4⟩ := hu hw s3 rest hfo hs3 (F' + 1) (by omega)
+    refine ⟨s4, ?_, hs4, by simp only [X.ntoks]; omega⟩
+    rw [e3] at h4
+    show pUnaryExpression (run (F' + 1)) s = _
+    simp [pUnaryExpression, bnd, h1, inSet, h2, h3, h4, tokCoord, pur, X.val, tc, hi1]
+
+/-- `_parse_cast_expression` on an expression without a cast -/
+theorem cast_of_un (e : X) (hu : UnOK e) : CastOK e := by
+  intro hwf s rest hfo hs F hF
+  obtain ⟨F', rfl⟩ : ∃ F', F = F' + 2 := ⟨F - 2, by have := fuel_ge e; omega⟩
+  obtain ⟨s1, h1, hs1, hi1⟩ := tryParen_expr F' s _ hs ((flat_heads hwf).append rest)
+  obtain ⟨s2, h2, hs2, hi2⟩ := hu hwf s1 rest hfo hs1 (F' + 1) (by omega)
+  refine ⟨s2, ?_, hs2, by omega⟩
+  rw [hi1] at h2
+  show pCastExpression (run (F' + 1)) s = _
+  simp [pCastExpression, bnd, h1, h2]
+
+
+/-! ## the binary layer -/
+
+/-- a leaf of a binary-operator tree that is derivable at a binary level is a unary expression -/
+theorem lift_leaf {e : X} {m : Nat} (hb : e.isBin = false) (h : WFX (3 + m) e) : WFX 13 e := by
+  generalize hL : 3 + m = L at h
+  cases h with
+  | id => exact .id _ _
+  | const _ _ _ _ h => exact .const _ _ _ _ h
+  | paren _ _ h => exact .paren _ _ h
+  | pre _ _ _ _ _ hk h => exact .pre _ _ _ _ (by omega) hk h
+  | szof _ _ _ h => exact .szof _ _ (by omega) h
+  | post _ _ _ _ _ hk h => exact .post _ _ _ _ (by omega) hk h
+  | index _ _ _ _ h1 h2 => exact .index _ _ _ (by omega) h1 h2
+  | member _ _ _ _ _ _ hk h => exact .member _ _ _ _ _ (by omega) hk h
+  | call0 _ _ _ h => exact .call0 _ _ (by omega) h
+  | call _ _ _ _ h1 h2 => exact .call _ _ _ (by omega) h1 h2
+  | bin => simp [X.isBin] at hb
+  | cond _ _ _ _ h => omega
+  | assign _ _ _ _ _ h => omega
+  | comma => omega
+
+/-- operands of the binary layer: any unary expression for which the operand entry point is correct -/
+def Op (n : Nat) (a : Val) (ta : List Tk) (fa : Nat) : Prop :=
+  ∃ e : X, WFX 13 e ∧ ta = e.flat ∧ a = e.val n ∧ fa = e.fuel - 5 ∧ CastOK e
 
 theorem operand_spec : OperandSpec Op FollowOp := by
   intro fuel s a ta fa rest hfuel hop hfo hs
-  rcases hop with ⟨x, rfl, rfl, rfl⟩ | ⟨e, rfl, rfl, rfl, hwf, hok⟩
-  · obtain ⟨F, rfl⟩ : ∃ F, fuel = F + 4 := ⟨fuel - 4, by omega⟩
-    obtain ⟨s', hr, hs', hi⟩ := cast_id F s x rest hs hfo
-    exact ⟨s', hr, hs', by simpa using hi⟩
-  · obtain ⟨G, rfl⟩ : ∃ G, fuel = G + 4 := ⟨fuel - 4, by omega⟩
-    have hs' : SeesT s (("LPAREN", "(") :: (e.flat ++ ("RPAREN", ")") :: rest)) := by
-      simpa [X.flat] using hs
-    have he : ∀ s0, SeesT s0 (e.flat ++ ("RPAREN", ")") :: rest) → s0.idx = s.idx + 1 →
-        ∃ s1, run G .expression s0 = .ok (e.val (s.idx + 1)) s1 ∧
-          SeesT s1 (("RPAREN", ")") :: rest) ∧ s1.idx = s.idx + 1 + e.ntoks := by
-      intro s0 h0 hi0
-      obtain ⟨s1, h1, hs1, hi1⟩ := hok hwf s0 ("RPAREN", ")") rest stopX_rparen h0 G (by omega)
-      exact ⟨s1, by rw [h1, hi0], hs1, by omega⟩
-    obtain ⟨s', hr, hs'', hi⟩ := cast_paren G s (e.val (s.idx + 1)) e.flat rest _ hs'
-      (flat_head e) he hfo
-    refine ⟨s', hr, hs'', ?_⟩
-    simp [X.flat, flat_length]; omega
+  obtain ⟨e, hwf, rfl, rfl, rfl, hok⟩ := hop
+  obtain ⟨s', hr, hs', hi⟩ := hok hwf s rest hfo hs fuel (by omega)
+  exact ⟨s', hr, hs', by rw [flat_length]; exact hi⟩
 
-
-/-- the parenthesised operands of the binary-operator tree rooted at `e` satisfy the theorem -/
+/-- the operands of the binary-operator tree rooted at `e` satisfy the theorem -/
 def LeafOK : X → Prop
-  | .paren e => XOK e
   | .bin _ _ l r => LeafOK l ∧ LeafOK r
-  | _ => True
+  | e => CastOK e
+
+theorem leafOK_leaf (e : X) (hb : e.isBin = false) : LeafOK e = CastOK e := by
+  cases e <;> first | rfl | simp [X.isBin] at hb
 
 theorem denotes_tks (f0 : Nat) : ∀ (n : Nat) (l : List Tk),
     Denotes Op FollowOp f0 n (l.map fun t => PT.tk t.1 t.2) l
@@ -302,27 +848,29 @@ theorem denotes_tks_inv (f0 : Nat) : ∀ (n : Nat) (l toks : List Tk),
     cases h with
     | tk _ _ _ _ toks' h' => rw [denotes_tks_inv f0 (n + 1) l toks' h']
 
-theorem denotes_tree (f0 : Nat) : ∀ (e : X) (m n : Nat) (ts : List PT) (toks : List Tk),
+theorem denotes_leaf (f0 : Nat) (e : X) (m n : Nat) (ts : List PT) (toks : List Tk) (hb : e.isBin = false)
+    (hwf : WFX (3 + m) e) (hok : LeafOK e) (hf0 : e.opFuel ≤ f0) (hf : FollowOp toks)
+    (hd : Denotes Op FollowOp f0 (n + e.ntoks) ts toks) :
+    Denotes Op FollowOp f0 n ((e.toBT n).toks ++ ts) (e.flat ++ toks) := by
+  rw [toBT_leaf e n hb]
+  rw [leafOK_leaf e hb] at hok
+  rw [opFuel_leaf e hb] at hf0
+  simp only [BT.toks, List.cons_append, List.nil_append]
+  exact .atom n _ e.flat (e.fuel - 5) ts toks ⟨e, lift_leaf hb hwf, rfl, rfl, rfl, hok⟩ hf0 hf
+    (by rw [flat_length]; exact hd)
+
+theorem denotes_tree (f0 : Nat) (e : X) : ∀ (m n : Nat) (ts : List PT) (toks : List Tk),
     WFX (3 + m) e → LeafOK e → e.opFuel ≤ f0 → FollowOp toks → Denotes Op FollowOp f0 (n + e.ntoks) ts toks →
-    Denotes Op FollowOp f0 n ((e.toBT n).toks ++ ts) (e.flat ++ toks)
-  | .id x, m, n, ts, toks, _, _, hf0, hf, hd => by
-    simp only [X.toBT, BT.toks, X.flat, List.cons_append, List.nil_append]
-    exact .atom n _ [("ID", x)] 4 ts toks (.inl ⟨x, rfl, rfl, rfl⟩) hf0 hf (by simpa [X.ntoks] using hd)
-  | .paren e, m, n, ts, toks, hwf, hok, hf0, hf, hd => by
-    generalize hL : 3 + m = L at hwf
-    cases hwf with
-    | paren _ _ hw =>
-      simp only [X.toBT, BT.toks, List.cons_append, List.nil_append]
-      refine .atom n _ (X.paren e).flat (e.fuel + 4) ts toks (.inr ⟨e, rfl, rfl, rfl, hw, hok⟩) ?_ hf ?_
-      · simpa [X.opFuel] using hf0
-      · simpa [X.flat, flat_length, X.ntoks] using hd
-  | .bin k v l r, m, n, ts, toks, hwf, hok, hf0, hf, hd => by
+    Denotes Op FollowOp f0 n ((e.toBT n).toks ++ ts) (e.flat ++ toks) := by
+  induction e with
+  | bin k v l r ihl ihr =>
+    intro m n ts toks hwf hok hf0 hf hd
     generalize hL : 3 + m = L at hwf
     cases hwf with
     | bin _ p _ _ _ _ hp _ hl hr =>
       have hfl : l.opFuel ≤ f0 := Nat.le_trans (Nat.le_max_left _ _) hf0
       have hfr : r.opFuel ≤ f0 := Nat.le_trans (Nat.le_max_right _ _) hf0
-      have h1 := denotes_tree f0 r (p + 1) (n + l.ntoks + 1) ts toks (by simpa [Nat.add_assoc] using hr) hok.2 hfr hf
+      have h1 := ihr (p + 1) (n + l.ntoks + 1) ts toks (by simpa [Nat.add_assoc] using hr) hok.2 hfr hf
         (by simpa [X.ntoks, Nat.add_assoc, Nat.add_comm, Nat.add_left_comm] using hd)
       have h2 : Denotes Op FollowOp f0 (n + l.ntoks) (PT.tk k v :: ((r.toBT (n + l.ntoks + 1)).toks ++ ts))
           ((k, v) :: (r.flat ++ toks)) := .tk _ k v _ _ h1
@@ -331,19 +879,11 @@ theorem denotes_tree (f0 : Nat) : ∀ (e : X) (m n : Nat) (ts : List PT) (toks :
         simp only [List.cons.injEq, Prod.mk.injEq] at heq
         rw [← heq.1.1]
         exact ParenExpr.binop_not_postfix k p hp
-      have h3 := denotes_tree f0 l p n _ _ hl hok.1 hfl hfo h2
+      have h3 := ihl p n _ _ hl hok.1 hfl hfo h2
       simpa [X.toBT, BT.toks, X.flat, List.append_assoc] using h3
-  | .cond c t f, m, _, _, _, hwf, _, _, _, _ => by
-    generalize hL : 3 + m = L at hwf
-    cases hwf with | cond _ _ _ _ h => omega
-  | .assign k v l r, m, _, _, _, hwf, _, _, _, _ => by
-    generalize hL : 3 + m = L at hwf
-    cases hwf with | assign _ _ _ _ _ h => omega
-  | .comma a b, m, _, _, _, hwf, _, _, _, _ => by
-    generalize hL : 3 + m = L at hwf
-    cases hwf with | comma => omega
+  | _ => intro m n ts toks hwf hok hf0 hf hd; exact denotes_leaf f0 _ m n ts toks rfl hwf hok hf0 hf hd
 
-/-- the binary layer, given the theorem for the parenthesised operands -/
+/-- the binary layer, given the theorem for the operands -/
 theorem bok_of_leaves (e : X) (hl : LeafOK e) : BOK e := by
   intro m hwf s stop rest hstop hs F hF
   let k : List PT := (stop :: rest).map fun t => PT.tk t.1 t.2
@@ -378,37 +918,14 @@ theorem bok_of_leaves (e : X) (hl : LeafOK e) : BOK e := by
 
 /-! ## the upper levels -/
 
-theorem flat_second : ∀ e : X, ∃ t1 r1, e.flat = t1 :: r1 ∧
-    (t1.1 ≠ "LPAREN" ∨ ∃ t2 r2, r1 = t2 :: r2 ∧ t2.1 ≠ "LBRACE")
-  | .id x => ⟨_, _, rfl, .inl (by simp)⟩
-  | .paren e => by
-    obtain ⟨t, r, h, ht⟩ := flat_head e
-    refine ⟨_, _, rfl, .inr ⟨t, r ++ [("RPAREN", ")")], by simp [h], ?_⟩⟩
-    rcases ht with h' | h' <;> rw [h'] <;> decide
-  | .bin k v l r => by
-    obtain ⟨t1, r1, h, hs⟩ := flat_second l
-    refine ⟨t1, r1 ++ [(k, v)] ++ r.flat, by simp [X.flat, h], ?_⟩
-    rcases hs with h' | ⟨t2, r2, rfl, h'⟩
-    · exact .inl h'
-    · exact .inr ⟨t2, r2 ++ [(k, v)] ++ r.flat, by simp, h'⟩
-  | .cond c t f => by
-    obtain ⟨t1, r1, h, hs⟩ := flat_second c
-    refine ⟨t1, r1 ++ ("CONDOP", "?") :: (t.flat ++ ("COLON", ":") :: f.flat), by simp [X.flat, h], ?_⟩
-    rcases hs with h' | ⟨t2, r2, rfl, h'⟩
-    · exact .inl h'
-    · exact .inr ⟨t2, r2 ++ ("CONDOP", "?") :: (t.flat ++ ("COLON", ":") :: f.flat), by simp, h'⟩
-  | .assign k v l r => by
-    obtain ⟨t1, r1, h, hs⟩ := flat_second l
-    refine ⟨t1, r1 ++ [(k, v)] ++ r.flat, by simp [X.flat, h], ?_⟩
-    rcases hs with h' | ⟨t2, r2, rfl, h'⟩
-    · exact .inl h'
-    · exact .inr ⟨t2, r2 ++ [(k, v)] ++ r.flat, by simp, h'⟩
-  | .comma a b => by
-    obtain ⟨t1, r1, h, hs⟩ := flat_second a
-    refine ⟨t1, r1 ++ ("COMMA", ",") :: b.flat, by simp [X.flat, h], ?_⟩
-    rcases hs with h' | ⟨t2, r2, rfl, h'⟩
-    · exact .inl h'
-    · exact .inr ⟨t2, r2 ++ ("COMMA", ",") :: b.flat, by simp, h'⟩
+theorem second_of_heads {l : List Tk} (h : HeadsOK l) : ∃ t1 r1, l = t1 :: r1 ∧
+    (t1.1 ≠ "LPAREN" ∨ ∃ t2 r2, r1 = t2 :: r2 ∧ t2.1 ≠ "LBRACE") := by
+  obtain ⟨t, r, rfl, _, h2⟩ := h
+  refine ⟨t, r, rfl, ?_⟩
+  by_cases hl : t.1 = "LPAREN"
+  · obtain ⟨t2, r2, rfl, ht2⟩ := h2 hl
+    exact .inr ⟨t2, r2, rfl, (heads_facts _ ht2).2.2.1⟩
+  · exact .inl hl
 
 /-- the statement-expression test `({` of `_parse_assignment_expression` is false on an expression -/
 theorem stmtexpr_test_false (s : PState) (toks : List Tk) (hs : SeesT s toks)
@@ -448,15 +965,11 @@ theorem cok_of_bok (e : X) (hb : BOK e) (hw3 : WFX 2 e → WFX 3 e) : COK e := b
 theorem aok_of_cok (e : X) (hc : COK e) (hw2 : WFX 1 e → WFX 2 e) : AOK e := by
   intro hwf s stop rest hstop hs F hF
   obtain ⟨G, rfl⟩ : ∃ G, F = G + 1 := ⟨F - 1, by have := fuel_ge e; omega⟩
-  obtain ⟨t1, r1, hfl, hsec⟩ := flat_second e
   refine assign_through G s _ (e.flat ++ stop :: rest) _ _ hs
-    ⟨t1, r1 ++ stop :: rest, by simp [hfl], ?_⟩ ?_ (by simpa using hstop.2)
-  · rcases hsec with h' | ⟨t2, r2, rfl, h'⟩
-    · exact .inl h'
-    · exact .inr ⟨t2, r2 ++ stop :: rest, by simp, h'⟩
-  · intro s0 h0 hi0
-    obtain ⟨s1, h1, hs1, hi1⟩ := hc (hw2 hwf) s0 stop rest hstop.1 h0 G (by omega)
-    exact ⟨s1, by rw [h1, hi0], hs1, by omega⟩
+    (second_of_heads ((flat_heads hwf).append _)) ?_ (by simpa using hstop.2)
+  intro s0 h0 hi0
+  obtain ⟨s1, h1, hs1, hi1⟩ := hc (hw2 hwf) s0 stop rest hstop.1 h0 G (by omega)
+  exact ⟨s1, by rw [h1, hi0], hs1, by omega⟩
 
 /-- expression level, for an expression that is not itself a comma expression -/
 theorem xok_of_aok (e : X) (ha : AOK e) (hw1 : WFX 0 e → WFX 1 e) : XOK e := by
@@ -499,12 +1012,7 @@ theorem aok_assign (k v : String) (l r : X) (hl : COK l) (hr : AOK r) : AOK (.as
     obtain ⟨hstopk, hin⟩ := assignOp_stop k hk
     have hs0 : SeesT s (l.flat ++ (k, v) :: (r.flat ++ stop :: rest)) := by
       simpa [X.flat, List.append_assoc] using hs
-    obtain ⟨t1, r1, hfl, hsec⟩ := flat_second l
-    obtain ⟨sb, hb, hsb, hib⟩ := stmtexpr_test_false s _ hs0
-      ⟨t1, r1 ++ (k, v) :: (r.flat ++ stop :: rest), by simp [hfl], by
-        rcases hsec with h' | ⟨t2, r2, rfl, h'⟩
-        · exact .inl h'
-        · exact .inr ⟨t2, r2 ++ (k, v) :: (r.flat ++ stop :: rest), by simp, h'⟩⟩
+    obtain ⟨sb, hb, hsb, hib⟩ := stmtexpr_test_false s _ hs0 (second_of_heads ((flat_heads hwl).append _))
     obtain ⟨s1, h1, hs1, hi1⟩ := hl (hwl.weaken (by omega)) sb (k, v) _ hstopk hsb G (by omega)
     obtain ⟨s2, h2, hs2, hi2, _⟩ := peekType_spec s1 _ hs1
     obtain ⟨s3, h3, hs3, _, hi3, _⟩ := advance_spec s2 k v _ hs2
@@ -517,39 +1025,35 @@ theorem aok_assign (k v : String) (l r : X) (hl : COK l) (hr : AOK r) : AOK (.as
     simp [pAssignmentExpression, bnd, hb, h1, h2, h3, h4, hco, pur, X.val, hin]
 
 
-/-! ## comma expressions -/
+/-! ## comma expressions and argument lists -/
 
-theorem flat_first : ∀ e : X, e.flat = e.first.flat ++ e.restToks
-  | .id _ => by simp [X.first, X.restToks]
-  | .paren _ => by simp [X.first, X.restToks]
-  | .bin .. => by simp [X.first, X.restToks]
-  | .cond .. => by simp [X.first, X.restToks]
-  | .assign .. => by simp [X.first, X.restToks]
-  | .comma a b => by simp [X.first, X.restToks, X.flat]
+theorem flat_first (e : X) : e.flat = e.first.flat ++ e.restToks := by
+  cases e <;> simp [X.first, X.restToks, X.flat]
 
-theorem ntoks_first : ∀ e : X, e.ntoks = e.first.ntoks + e.restToks.length
-  | .id _ => by simp [X.first, X.restToks]
-  | .paren _ => by simp [X.first, X.restToks]
-  | .bin .. => by simp [X.first, X.restToks]
-  | .cond .. => by simp [X.first, X.restToks]
-  | .assign .. => by simp [X.first, X.restToks]
-  | .comma a b => by simp [X.first, X.restToks, X.ntoks, flat_length]; omega
+theorem ntoks_first (e : X) : e.ntoks = e.first.ntoks + e.restToks.length := by
+  cases e <;> simp [X.first, X.restToks, X.ntoks, flat_length]
+  omega
 
-theorem fuel_first : ∀ e : X, e.first.fuel ≤ e.fuel
-  | .id _ => Nat.le_refl _
-  | .paren _ => Nat.le_refl _
-  | .bin .. => Nat.le_refl _
-  | .cond .. => Nat.le_refl _
-  | .assign .. => Nat.le_refl _
-  | .comma a b => by simp only [X.first, X.fuel]; omega
+theorem fuel_first (e : X) : e.first.fuel ≤ e.fuel := by
+  cases e <;> simp only [X.first, X.fuel, Nat.le_refl]
+  omega
 
-theorem wf_first : ∀ e : X, WFX 0 e → WFX 1 e.first
-  | .id _, _ => .id _ _
-  | .paren _, h => by cases h with | paren _ _ h => exact .paren _ _ h
-  | .bin .., h => by cases h with | bin _ p _ _ _ _ hp _ hl hr => exact .bin _ p _ _ _ _ hp (by omega) hl hr
-  | .cond .., h => by cases h with | cond _ _ _ _ _ a b c => exact .cond _ _ _ _ (by omega) a b c
-  | .assign .., h => by cases h with | assign _ _ _ _ _ _ a b c => exact .assign _ _ _ _ _ (by omega) a b c
-  | .comma a b, h => by cases h with | comma _ _ ha _ => exact ha
+theorem wf_first {e : X} (h : WFX 0 e) : WFX 1 e.first := by
+  cases h with
+  | comma _ _ ha _ => exact ha
+  | id => exact .id _ _
+  | const _ _ _ _ h => exact .const _ _ _ _ h
+  | paren _ _ h => exact .paren _ _ h
+  | pre _ _ _ _ _ hk h => exact .pre _ _ _ _ (by omega) hk h
+  | szof _ _ _ h => exact .szof _ _ (by omega) h
+  | post _ _ _ _ _ hk h => exact .post _ _ _ _ (by omega) hk h
+  | index _ _ _ _ h1 h2 => exact .index _ _ _ (by omega) h1 h2
+  | member _ _ _ _ _ _ hk h => exact .member _ _ _ _ _ (by omega) hk h
+  | call0 _ _ _ h => exact .call0 _ _ (by omega) h
+  | call _ _ _ _ h1 h2 => exact .call _ _ _ (by omega) h1 h2
+  | bin _ p _ _ _ _ hp _ hl hr => exact .bin _ p _ _ _ _ hp (by omega) hl hr
+  | cond _ _ _ _ _ a b c => exact .cond _ _ _ _ (by omega) a b c
+  | assign _ _ _ _ _ _ a b c => exact .assign _ _ _ _ _ (by omega) a b c
 
 /-- what follows the first operand: a comma, or the stop token of the whole expression -/
 theorem rest_head (e : X) (stop : Tk) (rest : List Tk) (hstop : StopX stop.1) :
@@ -565,6 +1069,13 @@ def LoopOK (e : X) : Prop :=
     ∀ F, e.fuel ≤ F + 1 → ∃ s', run F (.exprListLoop acc) s = .ok (acc ++ e.restItems n0) s' ∧
       SeesT s' (stop :: rest) ∧ s'.idx = n0 + e.ntoks
 
+/-- the loop of `_parse_argument_expression_list` after the first argument has been consumed -/
+def ArgLoopOK (e : X) : Prop :=
+  ∀ (acc : List Val) (s : PState) (stop : Tk) (rest : List Tk) (n0 : Nat), WFX 0 e → StopX stop.1 →
+    SeesT s (e.restToks ++ stop :: rest) → s.idx = n0 + e.first.ntoks →
+    ∀ F, e.fuel ≤ F + 1 → ∃ s', run F (.argListLoop acc) s = .ok (acc ++ e.restItems n0) s' ∧
+      SeesT s' (stop :: rest) ∧ s'.idx = n0 + e.ntoks
+
 theorem loop_single (e : X) (hnc : e.restToks = []) (hri : ∀ n, e.restItems n = []) (hf : e.first = e) : LoopOK e := by
   intro acc s stop rest n0 _ hstop hs hi F hF
   obtain ⟨G, rfl⟩ : ∃ G, F = G + 1 := ⟨F - 1, by have := fuel_ge e; omega⟩
@@ -574,6 +1085,16 @@ theorem loop_single (e : X) (hnc : e.restToks = []) (hri : ∀ n, e.restItems n 
   refine ⟨s1, ?_, by simpa using hs1, by rw [hi1, hi, hf]⟩
   show pExprListLoop (run G) acc s = _
   simp [pExprListLoop, bnd, h1, pur, hri]
+
+theorem argloop_single (e : X) (hnc : e.restToks = []) (hri : ∀ n, e.restItems n = []) (hf : e.first = e) : ArgLoopOK e := by
+  intro acc s stop rest n0 _ hstop hs hi F hF
+  obtain ⟨G, rfl⟩ : ∃ G, F = G + 1 := ⟨F - 1, by have := fuel_ge e; omega⟩
+  rw [hnc] at hs
+  obtain ⟨s1, h1, hs1, hi1⟩ := accept_other s _ "COMMA" hs
+    (by intro k w r h; simp only [List.nil_append, List.cons.injEq] at h; have := hstop.2; rw [h.1] at this; exact this)
+  refine ⟨s1, ?_, by simpa using hs1, by rw [hi1, hi, hf]⟩
+  show pArgListLoop (run G) acc s = _
+  simp [pArgListLoop, bnd, h1, pur, hri]
 
 theorem loop_comma (a b : X) (hfb : AOK b.first) (hlb : LoopOK b) : LoopOK (.comma a b) := by
   intro acc s stop rest n0 hwf hstop hs hi F hF
@@ -588,7 +1109,7 @@ theorem loop_comma (a b : X) (hfb : AOK b.first) (hlb : LoopOK b) : LoopOK (.com
     obtain ⟨s1, h1, hs1, hi1, _⟩ := accept_same s "COMMA" "," _ hs0
     obtain ⟨t, r, hhd, hst⟩ := rest_head b stop rest hstop
     rw [hhd] at hs1
-    obtain ⟨s2, h2, hs2, hi2⟩ := hfb (wf_first b hwb) s1 t r hst hs1 G (by omega)
+    obtain ⟨s2, h2, hs2, hi2⟩ := hfb (wf_first hwb) s1 t r hst hs1 G (by omega)
     rw [← hhd] at hs2
     simp only [X.first] at hi
     obtain ⟨s3, h3, hs3, hi3⟩ := hlb (acc ++ [b.first.val s1.idx]) s2 stop rest (n0 + a.ntoks + 1) hwb hstop hs2
@@ -601,6 +1122,34 @@ theorem loop_comma (a b : X) (hfb : AOK b.first) (hlb : LoopOK b) : LoopOK (.com
       simp only [X.restItems]; exact items_eq b _
     show pExprListLoop (run G) acc s = _
     simp only [pExprListLoop, bnd, h1, h2, h3, pur, hitems]
+    simp
+
+theorem argloop_comma (a b : X) (hfb : AOK b.first) (hlb : ArgLoopOK b) : ArgLoopOK (.comma a b) := by
+  intro acc s stop rest n0 hwf hstop hs hi F hF
+  cases hwf with
+  | comma _ _ hwa hwb =>
+    obtain ⟨G, rfl⟩ : ∃ G, F = G + 1 := ⟨F - 1, by simp only [X.fuel] at hF; have := fuel_ge b; omega⟩
+    simp only [X.fuel] at hF
+    have hff := fuel_first b
+    have hs0 : SeesT s (("COMMA", ",") :: (b.first.flat ++ (b.restToks ++ stop :: rest))) := by
+      have := flat_first b
+      simpa [X.restToks, this, List.append_assoc] using hs
+    obtain ⟨s1, h1, hs1, hi1, _⟩ := accept_same s "COMMA" "," _ hs0
+    obtain ⟨t, r, hhd, hst⟩ := rest_head b stop rest hstop
+    rw [hhd] at hs1
+    obtain ⟨s2, h2, hs2, hi2⟩ := hfb (wf_first hwb) s1 t r hst hs1 G (by omega)
+    rw [← hhd] at hs2
+    simp only [X.first] at hi
+    obtain ⟨s3, h3, hs3, hi3⟩ := hlb (acc ++ [b.first.val s1.idx]) s2 stop rest (n0 + a.ntoks + 1) hwb hstop hs2
+      (by omega) G (by omega)
+    refine ⟨s3, ?_, hs3, by simp only [X.ntoks]; omega⟩
+    have e1 : s1.idx = n0 + a.ntoks + 1 := by omega
+    rw [e1] at h2 h3
+    have hitems : (X.comma a b).restItems n0 =
+        b.first.val (n0 + a.ntoks + 1) :: b.restItems (n0 + a.ntoks + 1) := by
+      simp only [X.restItems]; exact items_eq b _
+    show pArgListLoop (run G) acc s = _
+    simp only [pArgListLoop, bnd, h1, h2, h3, pur, hitems]
     simp
 
 /-- `a , b` -/
@@ -618,7 +1167,7 @@ theorem xok_comma (a b : X) (ha : AOK a) (hfb : AOK b.first) (hlb : LoopOK b) : 
     obtain ⟨s2, h2, hs2, hi2, _⟩ := accept_same s1 "COMMA" "," _ hs1
     obtain ⟨t, r, hhd, hst⟩ := rest_head b stop rest hstop
     rw [hhd] at hs2
-    obtain ⟨s3, h3, hs3, hi3⟩ := hfb (wf_first b hwb) s2 t r hst hs2 G (by omega)
+    obtain ⟨s3, h3, hs3, hi3⟩ := hfb (wf_first hwb) s2 t r hst hs2 G (by omega)
     rw [← hhd] at hs3
     obtain ⟨s4, h4, hs4, hi4⟩ := hlb [a.val s.idx, b.first.val s2.idx] s3 stop rest (s.idx + a.ntoks + 1) hwb hstop hs3
       (by omega) G (by omega)
@@ -632,35 +1181,128 @@ theorem xok_comma (a b : X) (ha : AOK a) (hfb : AOK b.first) (hlb : LoopOK b) : 
     simp only [pExpression, bnd, h1, h2, h3, h4, hco, pur, X.val, hitems]
     simp
 
+/-- `f ( arguments )` -/
+theorem cps_call (f a : X) (ih : PostCPS f) (hfa : AOK a.first) (hla : ArgLoopOK a) : PostCPS (.call f a) := by
+  intro hwf s rest F hs hF
+  cases hwf with
+  | call _ _ _ _ hw hwa =>
+    simp only [X.fuel] at hF
+    have hsf := sfx_fuel f
+    have hff := fuel_first a
+    have hs0 : SeesT s (f.flat ++ ("LPAREN", "(") :: (a.flat ++ ("RPAREN", ")") :: rest)) := by
+      simpa [X.flat] using hs
+    obtain ⟨s1, G, hs1, hi1, hG, heq⟩ := ih hw s _ F hs0 (by omega)
+    obtain ⟨G', rfl⟩ : ∃ G', G = G' + 1 := ⟨G - 1, by omega⟩
+    obtain ⟨ta, ra, hfa', hta, _⟩ := flat_heads hwa
+    obtain ⟨m, hm⟩ : ∃ m, m = s.idx + f.ntoks + 1 := ⟨_, rfl⟩
+    obtain ⟨s2, hs2, hi2, hstep⟩ := loop_call G' s1 (f.val s.idx) (a.first.val m) (X.items m a) a.flat rest
+      (m + a.ntoks) hs1 ⟨ta, ra, hfa', (heads_facts _ hta).2.2.2.2⟩
+      (fun sa hsa hia => by
+        have hia' : sa.idx = m := by omega
+        obtain ⟨t, r, hhd, hst⟩ := rest_head a ("RPAREN", ")") rest stopX_rparen
+        have hsa' : SeesT sa (a.first.flat ++ t :: r) := by
+          rw [← hhd, ← List.append_assoc, ← flat_first]; exact hsa
+        obtain ⟨sb, hb, hsb, hib⟩ := hfa (wf_first hwa) sa t r hst hsa' G' (by omega)
+        rw [← hhd] at hsb
+        obtain ⟨sc, hc, hsc, hic⟩ := hla [a.first.val m] sb ("RPAREN", ")") rest m hwa stopX_rparen hsb
+          (by omega) G' (by omega)
+        refine ⟨sb, sc, by rw [hb, hia'], ?_, hsc, hic⟩
+        rw [hc, items_eq]; rfl)
+      (val_isNode _ _) (val_isNode _ _)
+    refine ⟨s2, G', hs2, by simp only [X.ntoks]; omega, by simp only [X.sfx]; omega, ?_⟩
+    rw [heq, hstep]
+    have hh : X.headCoord (X.items m a) = X.coordOfVal (a.first.val m) := by rw [items_eq]; rfl
+    subst hm
+    simp only [X.val]
+    rw [hh]
+
 
 /-! ## all entry points, all expressions -/
 
-theorem lift23 : ∀ e : X, (∀ c t f, e ≠ .cond c t f) → WFX 2 e → WFX 3 e
-  | .id _, _, _ => .id _ _
-  | .paren _, _, h => by cases h with | paren _ _ h => exact .paren _ _ h
-  | .bin .., _, h => by cases h with | bin _ p _ _ _ _ hp _ hl hr => exact .bin _ p _ _ _ _ hp (by omega) hl hr
-  | .cond c t f, hn, _ => absurd rfl (hn c t f)
-  | .assign .., _, h => by cases h with | assign _ _ _ _ _ hL => omega
-  | .comma .., _, h => by cases h
+theorem lift23 {e : X} (hn : ∀ c t f, e ≠ .cond c t f) (h : WFX 2 e) : WFX 3 e := by
+  cases h with
+  | cond _ c t f => exact absurd rfl (hn c t f)
+  | assign _ _ _ _ _ hL => omega
+  | id => exact .id _ _
+  | const _ _ _ _ h => exact .const _ _ _ _ h
+  | paren _ _ h => exact .paren _ _ h
+  | pre _ _ _ _ _ hk h => exact .pre _ _ _ _ (by omega) hk h
+  | szof _ _ _ h => exact .szof _ _ (by omega) h
+  | post _ _ _ _ _ hk h => exact .post _ _ _ _ (by omega) hk h
+  | index _ _ _ _ h1 h2 => exact .index _ _ _ (by omega) h1 h2
+  | member _ _ _ _ _ _ hk h => exact .member _ _ _ _ _ (by omega) hk h
+  | call0 _ _ _ h => exact .call0 _ _ (by omega) h
+  | call _ _ _ _ h1 h2 => exact .call _ _ _ (by omega) h1 h2
+  | bin _ p _ _ _ _ hp _ hl hr => exact .bin _ p _ _ _ _ hp (by omega) hl hr
 
-theorem lift12 : ∀ e : X, (∀ k v l r, e ≠ .assign k v l r) → WFX 1 e → WFX 2 e
-  | .id _, _, _ => .id _ _
-  | .paren _, _, h => by cases h with | paren _ _ h => exact .paren _ _ h
-  | .bin .., _, h => by cases h with | bin _ p _ _ _ _ hp _ hl hr => exact .bin _ p _ _ _ _ hp (by omega) hl hr
-  | .cond .., _, h => by cases h with | cond _ _ _ _ _ a b c => exact .cond _ _ _ _ (by omega) a b c
-  | .assign k v l r, hn, _ => absurd rfl (hn k v l r)
-  | .comma .., _, h => by cases h
+theorem lift12 {e : X} (hn : ∀ k v l r, e ≠ .assign k v l r) (h : WFX 1 e) : WFX 2 e := by
+  cases h with
+  | assign _ k v l r => exact absurd rfl (hn k v l r)
+  | cond _ _ _ _ _ a b c => exact .cond _ _ _ _ (by omega) a b c
+  | id => exact .id _ _
+  | const _ _ _ _ h => exact .const _ _ _ _ h
+  | paren _ _ h => exact .paren _ _ h
+  | pre _ _ _ _ _ hk h => exact .pre _ _ _ _ (by omega) hk h
+  | szof _ _ _ h => exact .szof _ _ (by omega) h
+  | post _ _ _ _ _ hk h => exact .post _ _ _ _ (by omega) hk h
+  | index _ _ _ _ h1 h2 => exact .index _ _ _ (by omega) h1 h2
+  | member _ _ _ _ _ _ hk h => exact .member _ _ _ _ _ (by omega) hk h
+  | call0 _ _ _ h => exact .call0 _ _ (by omega) h
+  | call _ _ _ _ h1 h2 => exact .call _ _ _ (by omega) h1 h2
+  | bin _ p _ _ _ _ hp _ hl hr => exact .bin _ p _ _ _ _ hp (by omega) hl hr
 
-theorem lift01 : ∀ e : X, (∀ a b, e ≠ .comma a b) → WFX 0 e → WFX 1 e
-  | .id _, _, _ => .id _ _
-  | .paren _, _, h => by cases h with | paren _ _ h => exact .paren _ _ h
-  | .bin .., _, h => by cases h with | bin _ p _ _ _ _ hp _ hl hr => exact .bin _ p _ _ _ _ hp (by omega) hl hr
-  | .cond .., _, h => by cases h with | cond _ _ _ _ _ a b c => exact .cond _ _ _ _ (by omega) a b c
-  | .assign .., _, h => by cases h with | assign _ _ _ _ _ _ a b c => exact .assign _ _ _ _ _ (by omega) a b c
-  | .comma a b, hn, _ => absurd rfl (hn a b)
+theorem lift01 {e : X} (hn : ∀ a b, e ≠ .comma a b) (h : WFX 0 e) : WFX 1 e := by
+  cases h with
+  | comma a b => exact absurd rfl (hn a b)
+  | assign _ _ _ _ _ _ a b c => exact .assign _ _ _ _ _ (by omega) a b c
+  | cond _ _ _ _ _ a b c => exact .cond _ _ _ _ (by omega) a b c
+  | id => exact .id _ _
+  | const _ _ _ _ h => exact .const _ _ _ _ h
+  | paren _ _ h => exact .paren _ _ h
+  | pre _ _ _ _ _ hk h => exact .pre _ _ _ _ (by omega) hk h
+  | szof _ _ _ h => exact .szof _ _ (by omega) h
+  | post _ _ _ _ _ hk h => exact .post _ _ _ _ (by omega) hk h
+  | index _ _ _ _ h1 h2 => exact .index _ _ _ (by omega) h1 h2
+  | member _ _ _ _ _ _ hk h => exact .member _ _ _ _ _ (by omega) hk h
+  | call0 _ _ _ h => exact .call0 _ _ (by omega) h
+  | call _ _ _ _ h1 h2 => exact .call _ _ _ (by omega) h1 h2
+  | bin _ p _ _ _ _ hp _ hl hr => exact .bin _ p _ _ _ _ hp (by omega) hl hr
+
+/-- a unary-level expression that is no prefix operator application is a postfix expression -/
+theorem lift1314 {e : X} (hp : ∀ k v e', e ≠ .pre k v e') (hz : ∀ e', e ≠ .szof e') (h : WFX 13 e) : WFX 14 e := by
+  cases h with
+  | pre _ k v e' => exact absurd rfl (hp k v e')
+  | szof _ e' => exact absurd rfl (hz e')
+  | id => exact .id _ _
+  | const _ _ _ _ h => exact .const _ _ _ _ h
+  | paren _ _ h => exact .paren _ _ h
+  | post _ _ _ _ _ hk h => exact .post _ _ _ _ (by omega) hk h
+  | index _ _ _ _ h1 h2 => exact .index _ _ _ (by omega) h1 h2
+  | member _ _ _ _ _ _ hk h => exact .member _ _ _ _ _ (by omega) hk h
+  | call0 _ _ _ h => exact .call0 _ _ (by omega) h
+  | call _ _ _ _ h1 h2 => exact .call _ _ _ (by omega) h1 h2
+  | bin _ p _ _ _ _ hp' hL => have := binPrec_le _ _ hp'; omega
+  | cond _ _ _ _ hL => omega
+  | assign _ _ _ _ _ hL => omega
+
+theorem not13_bin (k v : String) (l r : X) : ¬ WFX 13 (.bin k v l r) := by
+  intro h; cases h with | bin _ p _ _ _ _ hp hL => have := binPrec_le _ _ hp; omega
+theorem not13_cond (c t f : X) : ¬ WFX 13 (.cond c t f) := by
+  intro h; cases h with | cond _ _ _ _ hL => omega
+theorem not13_assign (k v : String) (l r : X) : ¬ WFX 13 (.assign k v l r) := by
+  intro h; cases h with | assign _ _ _ _ _ hL => omega
+theorem not13_comma (a b : X) : ¬ WFX 13 (.comma a b) := by
+  intro h; cases h
+theorem not14_pre (k v : String) (e : X) : ¬ WFX 14 (.pre k v e) := by
+  intro h; cases h with | pre _ _ _ _ hL => omega
+theorem not14_szof (e : X) : ¬ WFX 14 (.szof e) := by
+  intro h; cases h with | szof _ _ hL => omega
 
 /-- everything the induction carries about one expression -/
 structure All (e : X) : Prop where
+  cps : PostCPS e
+  un : UnOK e
+  cast : CastOK e
   b : BOK e
   c : COK e
   a : AOK e
@@ -668,62 +1310,100 @@ structure All (e : X) : Prop where
   leaf : LeafOK e
   afirst : AOK e.first
   loop : LoopOK e
+  argloop : ArgLoopOK e
+
+theorem first_eq {e : X} (hn : ∀ a b, e ≠ .comma a b) : e.first = e ∧ e.restToks = [] ∧ ∀ n, e.restItems n = [] := by
+  cases e <;> first | exact ⟨rfl, rfl, fun _ => rfl⟩ | exact absurd rfl (hn _ _)
+
+/-- the upper layers for an expression of the unary level or below -/
+theorem all_of_unary (e : X) (hb : e.isBin = false) (hnc : ∀ c t f, e ≠ .cond c t f)
+    (hna : ∀ k v l r, e ≠ .assign k v l r) (hnm : ∀ a b, e ≠ .comma a b) (cps : PostCPS e) (un : UnOK e) : All e := by
+  have cast := cast_of_un e un
+  have leaf : LeafOK e := by rw [leafOK_leaf e hb]; exact cast
+  have b := bok_of_leaves e leaf
+  have c := cok_of_bok _ b (lift23 hnc)
+  have a := aok_of_cok _ c (lift12 hna)
+  obtain ⟨hf, hr, hi⟩ := first_eq hnm
+  exact ⟨cps, un, cast, b, c, a, xok_of_aok _ a (lift01 hnm), leaf, by rw [hf]; exact a,
+    loop_single _ hr hi hf, argloop_single _ hr hi hf⟩
+
+theorem all_of_postfix (e : X) (hb : e.isBin = false) (hnc : ∀ c t f, e ≠ .cond c t f)
+    (hna : ∀ k v l r, e ≠ .assign k v l r) (hnm : ∀ a b, e ≠ .comma a b)
+    (hp : ∀ k v e', e ≠ .pre k v e') (hz : ∀ e', e ≠ .szof e') (cps : PostCPS e) : All e :=
+  all_of_unary e hb hnc hna hnm cps (fun hw => un_of_cps e (lift1314 hp hz hw) cps)
 
 theorem bok_vacuous (e : X) (h : ∀ m, ¬ WFX (3 + m) e) : BOK e := fun m hw => absurd hw (h m)
 
 theorem all_ok : ∀ e : X, All e
-  | .id x => by
-    have b := bok_of_leaves (.id x) trivial
-    have c := cok_of_bok _ b (lift23 _ (by intro _ _ _ h; cases h))
-    have a := aok_of_cok _ c (lift12 _ (by intro _ _ _ _ h; cases h))
-    exact ⟨b, c, a, xok_of_aok _ a (lift01 _ (by intro _ _ h; cases h)), trivial, a,
-      loop_single _ rfl (fun _ => rfl) rfl⟩
-  | .paren e => by
-    have ih := all_ok e
-    have b := bok_of_leaves (.paren e) ih.x
-    have c := cok_of_bok _ b (lift23 _ (by intro _ _ _ h; cases h))
-    have a := aok_of_cok _ c (lift12 _ (by intro _ _ _ _ h; cases h))
-    exact ⟨b, c, a, xok_of_aok _ a (lift01 _ (by intro _ _ h; cases h)), ih.x, a,
-      loop_single _ rfl (fun _ => rfl) rfl⟩
+  | .id x => all_of_postfix _ rfl (by intro _ _ _ h; cases h) (by intro _ _ _ _ h; cases h) (by intro _ _ h; cases h)
+      (by intro _ _ _ h; cases h) (by intro _ h; cases h) (cps_id x)
+  | .const k v t => all_of_postfix _ rfl (by intro _ _ _ h; cases h) (by intro _ _ _ _ h; cases h) (by intro _ _ h; cases h)
+      (by intro _ _ _ h; cases h) (by intro _ h; cases h) (cps_const k v t)
+  | .paren e => all_of_postfix _ rfl (by intro _ _ _ h; cases h) (by intro _ _ _ _ h; cases h) (by intro _ _ h; cases h)
+      (by intro _ _ _ h; cases h) (by intro _ h; cases h) (cps_paren e (all_ok e).x)
+  | .post k v e => all_of_postfix _ rfl (by intro _ _ _ h; cases h) (by intro _ _ _ _ h; cases h) (by intro _ _ h; cases h)
+      (by intro _ _ _ h; cases h) (by intro _ h; cases h) (cps_post k v e (all_ok e).cps)
+  | .index e i => all_of_postfix _ rfl (by intro _ _ _ h; cases h) (by intro _ _ _ _ h; cases h) (by intro _ _ h; cases h)
+      (by intro _ _ _ h; cases h) (by intro _ h; cases h) (cps_index e i (all_ok e).cps (all_ok i).x)
+  | .member k v e f => all_of_postfix _ rfl (by intro _ _ _ h; cases h) (by intro _ _ _ _ h; cases h) (by intro _ _ h; cases h)
+      (by intro _ _ _ h; cases h) (by intro _ h; cases h) (cps_member k v e f (all_ok e).cps)
+  | .call0 f => all_of_postfix _ rfl (by intro _ _ _ h; cases h) (by intro _ _ _ _ h; cases h) (by intro _ _ h; cases h)
+      (by intro _ _ _ h; cases h) (by intro _ h; cases h) (cps_call0 f (all_ok f).cps)
+  | .call f a => all_of_postfix _ rfl (by intro _ _ _ h; cases h) (by intro _ _ _ _ h; cases h) (by intro _ _ h; cases h)
+      (by intro _ _ _ h; cases h) (by intro _ h; cases h) (cps_call f a (all_ok f).cps (all_ok a).afirst (all_ok a).argloop)
+  | .pre k v e => all_of_unary _ rfl (by intro _ _ _ h; cases h) (by intro _ _ _ _ h; cases h) (by intro _ _ h; cases h)
+      (fun hw => absurd hw (not14_pre k v e)) (un_pre k v e (all_ok e).cast (all_ok e).un)
+  | .szof e => all_of_unary _ rfl (by intro _ _ _ h; cases h) (by intro _ _ _ _ h; cases h) (by intro _ _ h; cases h)
+      (fun hw => absurd hw (not14_szof e)) (un_szof e (all_ok e).un)
   | .bin k v l r => by
     have ihl := all_ok l
     have ihr := all_ok r
+    have n13 := not13_bin k v l r
     have b := bok_of_leaves (.bin k v l r) ⟨ihl.leaf, ihr.leaf⟩
-    have c := cok_of_bok _ b (lift23 _ (by intro _ _ _ h; cases h))
-    have a := aok_of_cok _ c (lift12 _ (by intro _ _ _ _ h; cases h))
-    exact ⟨b, c, a, xok_of_aok _ a (lift01 _ (by intro _ _ h; cases h)), ⟨ihl.leaf, ihr.leaf⟩, a,
-      loop_single _ rfl (fun _ => rfl) rfl⟩
+    have c := cok_of_bok _ b (lift23 (by intro _ _ _ h; cases h))
+    have a := aok_of_cok _ c (lift12 (by intro _ _ _ _ h; cases h))
+    exact ⟨fun hw => absurd (hw.weaken (by omega)) n13, fun hw => absurd hw n13, fun hw => absurd hw n13,
+      b, c, a, xok_of_aok _ a (lift01 (by intro _ _ h; cases h)), ⟨ihl.leaf, ihr.leaf⟩, a,
+      loop_single _ rfl (fun _ => rfl) rfl, argloop_single _ rfl (fun _ => rfl) rfl⟩
   | .cond c t f => by
     have ihc := all_ok c
     have iht := all_ok t
     have ihf := all_ok f
+    have n13 := not13_cond c t f
     have b : BOK (.cond c t f) := bok_vacuous _ (by
       intro m h; generalize hL : 3 + m = L at h; cases h with | cond _ _ _ _ hL' => omega)
     have cc := cok_cond c t f ihc.b iht.x ihf.c
-    have a := aok_of_cok _ cc (lift12 _ (by intro _ _ _ _ h; cases h))
-    exact ⟨b, cc, a, xok_of_aok _ a (lift01 _ (by intro _ _ h; cases h)), trivial, a,
-      loop_single _ rfl (fun _ => rfl) rfl⟩
+    have a := aok_of_cok _ cc (lift12 (by intro _ _ _ _ h; cases h))
+    exact ⟨fun hw => absurd (hw.weaken (by omega)) n13, fun hw => absurd hw n13, fun hw => absurd hw n13,
+      b, cc, a, xok_of_aok _ a (lift01 (by intro _ _ h; cases h)), fun hw => absurd hw n13, a,
+      loop_single _ rfl (fun _ => rfl) rfl, argloop_single _ rfl (fun _ => rfl) rfl⟩
   | .assign k v l r => by
     have ihl := all_ok l
     have ihr := all_ok r
+    have n13 := not13_assign k v l r
     have b : BOK (.assign k v l r) := bok_vacuous _ (by
       intro m h; generalize hL : 3 + m = L at h; cases h with | assign _ _ _ _ _ hL' => omega)
     have cc : COK (.assign k v l r) := by intro h; cases h with | assign _ _ _ _ _ hL' => omega
     have a := aok_assign k v l r ihl.c ihr.a
-    exact ⟨b, cc, a, xok_of_aok _ a (lift01 _ (by intro _ _ h; cases h)), trivial, a,
-      loop_single _ rfl (fun _ => rfl) rfl⟩
+    exact ⟨fun hw => absurd (hw.weaken (by omega)) n13, fun hw => absurd hw n13, fun hw => absurd hw n13,
+      b, cc, a, xok_of_aok _ a (lift01 (by intro _ _ h; cases h)), fun hw => absurd hw n13, a,
+      loop_single _ rfl (fun _ => rfl) rfl, argloop_single _ rfl (fun _ => rfl) rfl⟩
   | .comma a b => by
     have iha := all_ok a
     have ihb := all_ok b
+    have n13 := not13_comma a b
     have bb : BOK (.comma a b) := bok_vacuous _ (by
       intro m h; generalize hL : 3 + m = L at h; cases h with | comma => omega)
     have cc : COK (.comma a b) := by intro h; cases h
     have aa : AOK (.comma a b) := by intro h; cases h
-    exact ⟨bb, cc, aa, xok_comma a b iha.a ihb.afirst ihb.loop, trivial, iha.a, loop_comma a b ihb.afirst ihb.loop⟩
+    exact ⟨fun hw => absurd (hw.weaken (by omega)) n13, fun hw => absurd hw n13, fun hw => absurd hw n13,
+      bb, cc, aa, xok_comma a b iha.a ihb.afirst ihb.loop, fun hw => absurd hw n13, iha.a,
+      loop_comma a b ihb.afirst ihb.loop, argloop_comma a b ihb.afirst ihb.argloop⟩
 
-/-- **The parser model parses the expression skeleton exactly as the C grammar derives it.**
-For every expression `e` of `X` (identifiers, parentheses, the ten binary levels, `?:`, the
-assignment operators, comma; any size and nesting) that is well-formed at the comma level, from
+/-- **The parser model parses expressions exactly as the C grammar derives them.**
+For every expression `e` of `X` (identifiers, constants, parentheses, the postfix operators
+`++ -- [] . -> ()`, the prefix operators `++ -- & * + - ~ !` and `sizeof`, the ten binary levels, `?:`,
+the assignment operators, comma; any size and nesting) that is well-formed at the comma level, from
 every state that sees its tokens followed by a token that cannot continue an expression,
 `_parse_expression` returns `e.val` and consumes exactly the tokens of `e`. -/
 theorem parse_full (e : X) (hwf : WFX 0 e) (s : PState) (stop : Tk) (rest : List Tk) (hstop : StopX stop.1)
@@ -731,40 +1411,38 @@ theorem parse_full (e : X) (hwf : WFX 0 e) (s : PState) (stop : Tk) (rest : List
     ∃ s', run F .expression s = .ok (e.val s.idx) s' ∧ SeesT s' (stop :: rest) ∧ s'.idx = s.idx + e.ntoks :=
   (all_ok e).x hwf s stop rest hstop hs F hF
 
-theorem fuel_linear : ∀ e : X, e.fuel ≤ 13 * e.ntoks
-  | .id _ => by simp [X.fuel, X.ntoks]
-  | .paren e => by have := fuel_linear e; simp only [X.fuel, X.ntoks]; omega
-  | .bin _ _ l r => by have := fuel_linear l; have := fuel_linear r; simp only [X.fuel, X.ntoks]; omega
-  | .cond c t f => by
-    have := fuel_linear c; have := fuel_linear t; have := fuel_linear f; simp only [X.fuel, X.ntoks]; omega
-  | .assign _ _ l r => by have := fuel_linear l; have := fuel_linear r; simp only [X.fuel, X.ntoks]; omega
-  | .comma a b => by have := fuel_linear a; have := fuel_linear b; simp only [X.fuel, X.ntoks]; omega
+theorem fuel_linear (e : X) : e.fuel ≤ 13 * e.ntoks := by
+  induction e <;> simp only [X.fuel, X.ntoks] <;> omega
 
 
-/-- non-vacuity: `a = b ? c , d : e , ( f + g ) * h ;` from the initial state -/
+/-- non-vacuity: `a = - b [ i ] ++ * sizeof c . f ( x , 1 ) ;` from the initial state:
+postfix binds tighter than prefix, prefix tighter than `*`, `*` tighter than `=` -/
 example : ∃ s',
     run 400 .expression
-      (initState ([("ID", "a"), ("EQUALS", "="), ("ID", "b"), ("CONDOP", "?"), ("ID", "c"), ("COMMA", ","), ("ID", "d"),
-                   ("COLON", ":"), ("ID", "e"), ("COMMA", ","), ("LPAREN", "("), ("ID", "f"), ("PLUS", "+"), ("ID", "g"),
-                   ("RPAREN", ")"), ("TIMES", "*"), ("ID", "h"), ("SEMI", ";")].map (fun t => SEv.tok t.1 t.2) ++ [.eof]))
-      = .ok (mk .ExprList (some ⟨"", 0, some 1⟩) [.list [
-              mk .Assignment (some ⟨"", 0, some 1⟩) [.str "=", idNode 0 "a",
-                mk .TernaryOp (some ⟨"", 2, some 3⟩) [idNode 2 "b",
-                  mk .ExprList (some ⟨"", 4, some 5⟩) [.list [idNode 4 "c", idNode 6 "d"]],
-                  idNode 8 "e"]],
-              mk .BinaryOp (some ⟨"", 11, some 12⟩) [.str "*",
-                mk .BinaryOp (some ⟨"", 11, some 12⟩) [.str "+", idNode 11 "f", idNode 13 "g"],
-                idNode 16 "h"]]]) s' ∧ SeesT s' [("SEMI", ";")] := by
-  let e : X := .comma
-    (.assign "EQUALS" "=" (.id "a") (.cond (.id "b") (.comma (.id "c") (.id "d")) (.id "e")))
-    (.bin "TIMES" "*" (.paren (.bin "PLUS" "+" (.id "f") (.id "g"))) (.id "h"))
+      (initState ([("ID", "a"), ("EQUALS", "="), ("MINUS", "-"), ("ID", "b"), ("LBRACKET", "["), ("ID", "i"),
+                   ("RBRACKET", "]"), ("PLUSPLUS", "++"), ("TIMES", "*"), ("SIZEOF", "sizeof"), ("ID", "c"),
+                   ("PERIOD", "."), ("ID", "f"), ("LPAREN", "("), ("ID", "x"), ("COMMA", ","), ("INT_CONST_DEC", "1"),
+                   ("RPAREN", ")"), ("SEMI", ";")].map (fun t => SEv.tok t.1 t.2) ++ [.eof]))
+      = .ok (mk .Assignment (tc 0) [.str "=", idNode 0 "a",
+              mk .BinaryOp (tc 3) [.str "*",
+                mk .UnaryOp (tc 3) [.str "-",
+                  mk .UnaryOp (tc 3) [.str "p++", mk .ArrayRef (tc 3) [idNode 3 "b", idNode 5 "i"]]],
+                mk .UnaryOp (tc 9) [.str "sizeof",
+                  mk .FuncCall (tc 10) [mk .StructRef (tc 10) [idNode 10 "c", .str ".", idNode 12 "f"],
+                    mk .ExprList (tc 14) [.list [idNode 14 "x", mk .Constant (tc 16) [.str "int", .str "1"]]]]]]]) s' ∧
+      SeesT s' [("SEMI", ";")] := by
+  let e : X := .assign "EQUALS" "=" (.id "a")
+    (.bin "TIMES" "*" (.pre "MINUS" "-" (.post "PLUSPLUS" "++" (.index (.id "b") (.id "i"))))
+      (.szof (.call (.member "PERIOD" "." (.id "c") "f") (.comma (.id "x") (.const "INT_CONST_DEC" "1" "int")))))
   have hwf : WFX 0 e := by
-    refine .comma _ _ (.assign _ _ _ _ _ (by omega) (by decide) (.id _ _) ?_) ?_
-    · exact .cond _ _ _ _ (by omega) (.id _ _) (.comma _ _ (.id _ _) (.id _ _)) (.id _ _)
-    · exact .bin _ 9 _ _ _ _ (by decide) (by omega) (.paren _ _ (.bin _ 8 _ _ _ _ (by decide) (by omega) (.id _ _) (.id _ _))) (.id _ _)
-  have hs := ParenExpr.seesT_init [("ID", "a"), ("EQUALS", "="), ("ID", "b"), ("CONDOP", "?"), ("ID", "c"), ("COMMA", ","), ("ID", "d"),
-    ("COLON", ":"), ("ID", "e"), ("COMMA", ","), ("LPAREN", "("), ("ID", "f"), ("PLUS", "+"), ("ID", "g"),
-    ("RPAREN", ")"), ("TIMES", "*"), ("ID", "h"), ("SEMI", ";")]
+    refine .assign _ _ _ _ _ (by omega) (by decide) (.id _ _) (.bin _ 9 _ _ _ _ (by decide) (by omega) ?_ ?_)
+    · exact .pre _ _ _ _ (by omega) (by decide) (.post _ _ _ _ (by omega) (by decide) (.index _ _ _ (by omega) (.id _ _) (.id _ _)))
+    · exact .szof _ _ (by omega) (.call _ _ _ (by omega) (.member _ _ _ _ _ (by omega) (by decide) (.id _ _))
+        (.comma _ _ (.id _ _) (.const _ _ _ _ (by decide))))
+  have hs := ParenExpr.seesT_init [("ID", "a"), ("EQUALS", "="), ("MINUS", "-"), ("ID", "b"), ("LBRACKET", "["), ("ID", "i"),
+    ("RBRACKET", "]"), ("PLUSPLUS", "++"), ("TIMES", "*"), ("SIZEOF", "sizeof"), ("ID", "c"),
+    ("PERIOD", "."), ("ID", "f"), ("LPAREN", "("), ("ID", "x"), ("COMMA", ","), ("INT_CONST_DEC", "1"),
+    ("RPAREN", ")"), ("SEMI", ";")]
   have hstop : StopX ("SEMI", ";").1 := ⟨⟨⟨⟨by decide, by decide⟩, by decide⟩, by decide⟩, by decide⟩
   obtain ⟨s', hr, hs', _⟩ := parse_full e hwf _ ("SEMI", ";") [] hstop hs 400 (by decide)
   exact ⟨s', hr, hs'⟩
